@@ -3,22 +3,36 @@
 //! (a) `json`: every declared `kty` (4) x EVERY subset of the 13 type-specific member names
 //!     {crv,x,y,d,n,e,p,q,dp,dq,qi,oth,k} (8 192: all private subsets incl. partial RSA sets and `oth`,
 //!     all declared-type / parameter-family mismatches, all "two families at once" shapes) x optional-member
-//!     sets x member order, as JSON text through `Jwk::from_json`.
+//!     sets x member order x the way the text reaches `Jwk`'s deserialiser (`from_json`, `from_json_value`,
+//!     `from_json_slice`, inside a `JwkSet`, inside a verification method's `publicKeyJwk`, inside a `did:jwk`).
 //! (b) `json-optional`: the well-formed member sets (required members of the declared type + every
 //!     subset of its private members: 133 sets) x optional-member subsets (<=2 present / all 256) x
-//!     key_ops menu x member order.
-//! (c) `api`: the same keys built through `from_params`, `Jwk::new`+`set_params`, `set_kty`,
-//!     `try_*_params_mut`, JSON round trip; `params_mut` variant swap and `set_params_unchecked` are
-//!     executed and recorded only.
-//! (d) `method`: `VerificationMethod::new_from_jwk` (fragment / kid), `MethodBuilder::build`,
-//!     `DIDJwk -> VerificationMethod` on every key type x every private subset.
-//! (e) `generate`: `JwkMemStore::generate` output and the JSON of Core/IOTA documents after
-//!     `generate_method` in every scope.
+//!     key_ops menu (9) x kid menu (5, incl. empty / unicode / long) x member order.
+//! (c) `values`: the 133 member sets x value profiles of the public members (every registered curve name incl.
+//!     the BLS curves, unknown and empty curve names, empty and 4 096-character values, other RSA exponents)
+//!     x value profiles of the private members (RFC values, present-but-empty, long / two `oth` primes).
+//! (d) `json-edge`: hand-enumerated edge shapes (duplicate `kty` / `d` / `oth`, null / wrongly typed members,
+//!     unknown members, pretty-printed text, ...) x kty x way of deserialisation.
+//! (e) `api`: the same keys built through `from_params`, `Jwk::new`+`set_params`, `set_kty`,
+//!     `try_*_params_mut`, JSON round trip, `set_kty`+`set_params`; `params_mut` variant swap and
+//!     `set_params_unchecked` are executed and recorded only.
+//! (f) `set`: every sequence (<=3 / <=5) over a menu of 11 key texts as a `JwkSet` document: keys obtained
+//!     through `iter`, index, `get(kid)`, `pop`; the serialised set and the set of public projections.
+//! (g) `method`: `VerificationMethod::new_from_jwk` (fragment / kid menu), `MethodBuilder::build` x method type,
+//!     `DIDJwk -> VerificationMethod`, `CoreDocument::expand_did_jwk` on every key type x every private subset
+//!     x private value profile; `VerificationMethod::from_json` recorded only.
+//! (h) `generate`: `JwkMemStore::generate` output (every key type / algorithm pair of the store) and the JSON of
+//!     Core/IOTA documents after `generate_method` in every scope.
 //!
 //! Oracle (from the property statement + RFC 7517/7518/7638/8037, independent of the implementation):
-//! accepted => `kty() == params().kty()` == declared; `is_public` <=> no private member; `to_public`
-//! has no private member, same kty and public parameters, is public, is idempotent; thumbprint ==
-//! own RFC 7638 computation over the required members (so it cannot depend on anything else).
+//! accepted => `kty() == params().kty()` == declared; `is_public` <=> no private member (by presence: the
+//! public fields of `params()` and the serialised member names); `to_public` has no private member, same kty
+//! and public parameters, is public, is idempotent; thumbprint == own RFC 7638 computation over the required
+//! members (so it cannot depend on anything else). `is_private`: only what holds under both readings of
+//! "private" (all private members set => true, none set => false); partial sets are recorded.
+//! Not in scope of the statement (executed at most, never judged): `Jwk` equality semantics, zeroize-on-drop,
+//! whether a private member given in JSON is retained, which optional members a projection keeps,
+//! `JwkSet::get` matching semantics, error variants and messages.
 
 use identity_core::common::Url;
 use identity_core::convert::{FromJson, ToJson};
@@ -26,14 +40,15 @@ use identity_did::{CoreDID, DIDJwk, DIDUrl};
 use identity_document::document::CoreDocument;
 use identity_iota_core::{IotaDocument, NetworkName};
 use identity_jose::jwk::{
-  Jwk, JwkOperation, JwkParams, JwkParamsEc, JwkParamsOct, JwkParamsOkp, JwkParamsRsa, JwkParamsRsaPrime, JwkType, JwkUse,
+  Jwk, JwkOperation, JwkParams, JwkParamsEc, JwkParamsOct, JwkParamsOkp, JwkParamsRsa, JwkParamsRsaPrime, JwkSet, JwkType, JwkUse,
 };
 use identity_jose::jws::JwsAlgorithm;
-use identity_storage::{JwkDocumentExt, JwkMemStore, JwkStorage, KeyIdMemstore, Storage};
+use identity_storage::{JwkDocumentExt, JwkMemStore, JwkStorage, KeyIdMemstore, KeyType, Storage};
 use identity_verification::{MethodBuilder, MethodData, MethodRelationship, MethodScope, MethodType, VerificationMethod};
 use serde::{Deserialize, Serialize};
 use sha2::{Digest, Sha256};
 use std::collections::BTreeMap;
+use std::sync::atomic::{AtomicU64, Ordering};
 use vx::rayon::prelude::*;
 use vx::{guard, json, Ctx, Level, Value};
 
@@ -63,8 +78,6 @@ fn bit(name: &str) -> u16 {
 fn mask(names: &[&str]) -> u16 {
   names.iter().map(|n| bit(n)).sum()
 }
-/// Names that carry private key material in at least one key type (RFC 7518 §6.2.2, §6.3.2, §6.4.1, RFC 8037 §2).
-const PRIV: [&str; 8] = ["d", "p", "q", "dp", "dq", "qi", "oth", "k"];
 fn required(t: usize) -> &'static [&'static str] {
   match t {
     EC => &["crv", "x", "y"],
@@ -81,33 +94,192 @@ fn private_of(t: usize) -> &'static [&'static str] {
     _ => &[],
   }
 }
+/// Every member name that carries private key material IN A KEY OF TYPE `t` (RFC 7518 §6.2.2, §6.3.2, §6.4.1,
+/// RFC 8037 §2). A member of another family (say `p` in an EC key) is an unknown member, not a private one.
+fn priv_names(t: usize) -> &'static [&'static str] {
+  match t {
+    EC | OKP => &["d"],
+    RSA => &["d", "p", "q", "dp", "dq", "qi", "oth"],
+    _ => &["k"],
+  }
+}
 const OPT: [&str; 8] = ["use", "key_ops", "alg", "kid", "x5u", "x5c", "x5t", "x5t#S256"];
-const OPS_MENU: [&[&str]; 3] = [&["sign"], &["verify"], &["deriveKey", "deriveBits"]];
+const OPT_KEY_OPS: u8 = 2;
+const OPT_KID: u8 = 8;
+const OPS_MENU: [&[&str]; 9] = [
+  &["sign"],
+  &["verify"],
+  &["deriveKey", "deriveBits"],
+  &[],
+  &["sign", "verify"],
+  &["encrypt", "decrypt", "wrapKey", "unwrapKey"],
+  &["proofGeneration"],
+  &["proofVerification"],
+  &["sign", "sign"],
+];
+const N_KIDS: u8 = 5;
+fn kid_value(kidv: u8) -> String {
+  match kidv % N_KIDS {
+    0 => "key-1".into(),
+    1 => String::new(),
+    2 => "#key-1".into(),
+    3 => "\u{43a}\u{43b}\u{44e}\u{447}-\u{fc}-\u{1F511} \"q\"\\".into(),
+    _ => "k".repeat(300),
+  }
+}
 
+// ---- key material: the RFC example keys (RFC 7517 A.1-A.3, RFC 7638 §3.1, RFC 8037 A.1/A.2), so that the
+// baseline family stays acceptable even if the library one day validates key material on deserialisation.
 const EC_X: &str = "MKBCTNIcKUSDii11ySs3526iDZ8AiTo7Tu6KPAqv7D4";
 const EC_Y: &str = "4Etl6SRW2YiLUrN5vfvVHuhp7x8PxltmWWlbbM4IFyM";
+const EC_D: &str = "870MB6gfuTJ4HtUnUvYMyJpr5eUZNP4Bk43bVdj3eAE";
 const OKP_X: &str = "11qYAYKxCrfVS_7TyWQHOg7hcvPapiMlrwIaaPcHURo";
+const OKP_D: &str = "nWGxne_9WmC6hEr0kuwsxERJxWl7MmkZcDusAxyuf2A";
+const X25519_X: &str = "3p7bfXt9wbTTW2HC7OQ1Nz-DQ8hbeGdNrfx-FG-IK08";
 const RSA_N: &str = "0vx7agoebGcQSuuPiLJXZptN9nndrQmbXEps2aiAFbWhM78LhWx4cbbfAAtVT86zwu1RK7aPFFxuhDR1L6tSoc_BJECPebWKRXjBZCiFV4n3oknjhMstn64tZ_2W-5JsGY4Hc5n9yBXArwl93lqt7_RN5w6Cf0h4QyQ5v-65YGjQR0_FDW2QvzqY368QQMicAtaSqzs8KJZgnYb9c7d0zgdAZHzu6qMQvRL5hajrn1n91CbOpbISD08qNLyrdkt-bFTWhAI4vMQFh6WeZu0fM4lFd2NcRwr3XPksINHaQ-G_xBniIqbw0Ls1jF44-csFCur-kEgU8awapJzKnqDKgw";
+const RSA_D: &str = "X4cTteJY_gn4FYPsXB8rdXix5vwsg1FLN5E3EaG6RJoVH-HLLKD9M7dx5oo7GURknchnrRweUkC7hT5fJLM0WbFAKNLWY2vv7B6NqXSzUvxT0_YSfqijwp3RTzlBaCxWp4doFk5N2o8Gy_nHNKroADIkJ46pRUohsXywbReAdYaMwFs9tv8d_cPVY3i07a3t8MN6TNwm0dSawm9v47UiCl3Sk5ZiG7xojPLu4sbg1U2jx4IBTNBznbJSzFHK66jT8bgkuqsk0GjskDJk19Z4qwjwbsnn4j2WBii3RL-Us2lGVkY8fkFzme1z0HbIkfz0Y6mqnOYtqc0X4jfcKoAC8Q";
+const RSA_P: &str = "83i-7IvMGXoMXCskv73TKr8637FiO7Z27zv8oj6pbWUQyLPQBQxtPVnwD20R-60eTDmD2ujnMt5PoqMrm8RfmNhVWDtjjMmCMjOpSXicFHj7XOuVIYQyqVWlWEh6dN36GVZYk93N8Bc9vY41xy8B9RzzOGVQzXvNEvn7O0nVbfs";
+const RSA_Q: &str = "3dfOR9cuYq-0S-mkFLzgItgMEfFzB2q3hWehMuG0oCuqnb3vobLyumqjVZQO1dIrdwgTnCdpYzBcOfW5r370AFXjiWft_NGEiovonizhKpo9VVS78TzFgxkIdrecRezsZ-1kYd_s1qDbxtkDEgfAITAG9LUnADun4vIcb6yelxk";
+const RSA_DP: &str = "G4sPXkc6Ya9y8oJW9_ILj4xuppu0lzi_H7VTkS8xj5SdX3coE0oimYwxIi2emTAue0UOa5dpgFGyBJ4c8tQ2VF402XRugKDTP8akYhFo5tAA77Qe_NmtuYZc3C3m3I24G2GvR5sSDxUyAN2zq8Lfn9EUms6rY3Ob8YeiKkTiBj0";
+const RSA_DQ: &str = "s9lAH9fggBsoFR8Oac2R_E2gw282rT2kGOAhvIllETE1efrA6huUUvMfBcMpn8lqeW6vzznYY5SSQF7pMdC_agI3nG8Ibp1BUb0JUiraRNqUfLhcQb_d9GF4Dh7e74WbRsobRonujTYN1xCaP6TO61jvWrX-L18txXw494Q_cgk";
+const RSA_QI: &str = "GyM_p6JrXySiz1toFgKbWV-JdI3jQ4ypu9rbMWx3rQJBfmt0FoYzgUIZEVFEcOqwemRN81zoDAaa-Bk0KWNGDjJHZDdDmFhW3AN7lI-puxk_mHZGJ11rxyR8O55XLSe3SPmRfKwZI6yU24ZxvQKFYItdldUKGzO6Ia6zTKhAVRU";
+const OCT_K: &str = "GawgguFyGrWKav7AX4VKUg";
+const OCT_K_HMAC: &str = "AyM1SysPpbyDfgZld3umj1qzKObwVMkoqQ-EstJQLr_T-1qS0gZH75aKtMN3Yj0iPS4hcgUuTwjAzZr1Z9CAow";
+const RFC_SECRETS: [&str; 10] = [EC_D, OKP_D, RSA_D, RSA_P, RSA_Q, RSA_DP, RSA_DQ, RSA_QI, OCT_K, OCT_K_HMAC];
+const B64: &[u8; 64] = b"ABCDEFGHIJKLMNOPQRSTUVWXYZabcdefghijklmnopqrstuvwxyz0123456789-_";
+/// Deterministic base64url filler (no randomness): the alphabet walked with stride 7 from an offset.
+fn synth(tag: usize, len: usize) -> String {
+  (0..len).map(|i| B64[(i * 7 + tag * 13) % 64] as char).collect()
+}
+/// Synthetic private value: carries the marker `S3CR3T`, which no public value and no filler contains.
+fn secret_synth(tag: usize, len: usize) -> String {
+  format!("S3CR3T{tag}x{}", synth(tag, len))
+}
+/// Does `text` contain one of the private values the harness put into a key?
+fn leaks(text: &str) -> bool {
+  text.contains("S3CR3T") || RFC_SECRETS.iter().any(|s| text.contains(s))
+}
+const LONG: usize = 4096;
 
-/// Value of a type-specific member when the declared type is `t`. Every private value starts with
-/// `SECRET` (inside the base64url alphabet), so a leak is also visible as text.
-fn value_of(name: &str, t: usize) -> Value {
+/// Number of value profiles of the public members per key type; the last one needs JSON escaping (not a legal
+/// member value: thumbprint recorded, not judged).
+const N_PUBV: [u8; 4] = [14, 6, 5, 9];
+fn needs_escape(t: usize, pubv: u8) -> bool {
+  pubv == N_PUBV[t] - 1
+}
+const ESC: &str = "P-256\"\\\u{e9}";
+fn ec_profile(pubv: u8) -> (String, String, String) {
+  let s = |a: &str| a.to_string();
+  match pubv {
+    0 => (s("P-256"), s(EC_X), s(EC_Y)),
+    1 => (s("P-384"), synth(1, 64), synth(2, 64)),
+    2 => (s("P-521"), synth(3, 88), synth(4, 88)),
+    3 => (s("secp256k1"), synth(5, 43), synth(6, 43)),
+    4 => (s("BLS12381G1"), synth(7, 64), synth(8, 64)),
+    5 => (s("BLS12381G2"), synth(9, 128), synth(10, 128)),
+    6 => (s("BLS48581G1"), synth(11, 98), synth(12, 98)),
+    7 => (s("BLS48581G2"), synth(13, 776), synth(14, 776)),
+    8 => (s(""), s(EC_X), s(EC_Y)),
+    9 => (s("P-256"), s(""), s("")),
+    10 => (s("P-256"), synth(15, LONG), s(EC_Y)),
+    11 => (s("P-256"), s(EC_X), synth(16, LONG)),
+    12 => (s("P-256K-unknown"), s(EC_X), s(EC_Y)),
+    _ => (s(ESC), s(EC_X), s(EC_Y)),
+  }
+}
+fn okp_profile(pubv: u8) -> (String, String) {
+  let s = |a: &str| a.to_string();
+  match pubv {
+    0 => (s("Ed25519"), s(OKP_X)),
+    1 => (s("Ed448"), synth(17, 76)),
+    2 => (s("X25519"), s(X25519_X)),
+    3 => (s("X448"), synth(18, 75)),
+    4 => (s(""), s(OKP_X)),
+    5 => (s("Ed25519"), s("")),
+    6 => (s("Ed25519"), synth(19, LONG)),
+    7 => (s("Ed25519-unknown"), s(OKP_X)),
+    _ => (s(ESC), s(OKP_X)),
+  }
+}
+fn rsa_profile(pubv: u8) -> (String, String) {
+  let s = |a: &str| a.to_string();
+  match pubv {
+    0 => (s(RSA_N), s("AQAB")),
+    1 => (s(RSA_N), s("Aw")),
+    2 => (s(""), s("")),
+    3 => (synth(20, LONG), s("AQAB")),
+    4 => (s(RSA_N), synth(21, LONG)),
+    _ => (s(RSA_N), s(ESC)),
+  }
+}
+fn oct_profile(pubv: u8) -> String {
+  match pubv {
+    0 => OCT_K.to_string(),
+    1 => OCT_K_HMAC.to_string(),
+    2 => String::new(),
+    3 => secret_synth(22, LONG),
+    _ => format!("S3CR3T{ESC}"),
+  }
+}
+fn oth_prime(i: usize) -> Value {
+  json!({"r": secret_synth(30 + i, 40), "d": secret_synth(40 + i, 40), "t": secret_synth(50 + i, 40)})
+}
+
+/// Value of a type-specific member in a key of declared type `t`. `pubv`: profile of the public members
+/// (0 = RFC example key), `privv`: profile of the private members (0 = RFC values, 1 = present but empty,
+/// 2 = 4 096 characters / two `oth` primes). A member that does not belong to type `t` gets the public value of
+/// its home type or, when it is private there, a marker that is NOT counted as a secret.
+fn value_of(name: &str, t: usize, pubv: u8, privv: u8) -> Value {
+  if required(t).contains(&name) {
+    return json!(match (t, name) {
+      (EC, "crv") => ec_profile(pubv).0,
+      (EC, "x") => ec_profile(pubv).1,
+      (EC, _) => ec_profile(pubv).2,
+      (OKP, "crv") => okp_profile(pubv).0,
+      (OKP, _) => okp_profile(pubv).1,
+      (RSA, "n") => rsa_profile(pubv).0,
+      (RSA, _) => rsa_profile(pubv).1,
+      _ => oct_profile(pubv),
+    });
+  }
+  if priv_names(t).contains(&name) {
+    if name == "oth" {
+      return match privv {
+        1 => json!([]),
+        2 => json!([oth_prime(0), oth_prime(1)]),
+        _ => json!([oth_prime(0)]),
+      };
+    }
+    return json!(match (privv, t, name) {
+      (1, _, _) => String::new(),
+      (2, EC, _) | (2, OKP, _) => secret_synth(23, LONG),
+      (_, EC, _) => EC_D.to_string(),
+      (_, OKP, _) => OKP_D.to_string(),
+      (_, _, "d") => RSA_D.to_string(),
+      (_, _, "p") => RSA_P.to_string(),
+      (_, _, "q") => RSA_Q.to_string(),
+      (_, _, "dp") => RSA_DP.to_string(),
+      (_, _, "dq") => RSA_DQ.to_string(),
+      _ => RSA_QI.to_string(),
+    });
+  }
+  // foreign member
   match name {
-    "crv" => json!(if t == OKP { "Ed25519" } else { "P-256" }),
-    "x" => json!(if t == OKP { OKP_X } else { EC_X }),
+    "crv" => json!("P-256"),
+    "x" => json!(EC_X),
     "y" => json!(EC_Y),
     "n" => json!(RSA_N),
     "e" => json!("AQAB"),
-    "oth" => json!([{"r": "SECRET_oth_r", "d": "SECRET_oth_d", "t": "SECRET_oth_t"}]),
-    p => json!(format!("SECRET_{p}")),
+    "oth" => json!([{"r": "Zm9yZWlnbi1y", "d": "Zm9yZWlnbi1k", "t": "Zm9yZWlnbi10"}]),
+    other => json!(format!("Zm9yZWlnbi0{other}")),
   }
 }
-fn opt_value(name: &str, ops: u8) -> Value {
+fn opt_value(name: &str, ops: u8, kidv: u8) -> Value {
   match name {
     "use" => json!("sig"),
-    "key_ops" => json!(OPS_MENU[ops as usize % 3]),
+    "key_ops" => json!(OPS_MENU[ops as usize % OPS_MENU.len()]),
     "alg" => json!("EdDSA"),
-    "kid" => json!("key-1"),
+    "kid" => json!(kid_value(kidv)),
     "x5u" => json!("https://example.com/cert.pem"),
     "x5c" => json!(["MIIBcert"]),
     "x5t" => json!("dGh1bWI"),
@@ -117,24 +289,23 @@ fn opt_value(name: &str, ops: u8) -> Value {
 
 // ------------------------------------------------------------------ independent RFC 7638
 fn b64url(data: &[u8]) -> String {
-  const A: &[u8; 64] = b"ABCDEFGHIJKLMNOPQRSTUVWXYZabcdefghijklmnopqrstuvwxyz0123456789-_";
   let mut s = String::new();
   for c in data.chunks(3) {
     let n = (c[0] as u32) << 16 | (*c.get(1).unwrap_or(&0) as u32) << 8 | *c.get(2).unwrap_or(&0) as u32;
-    s.push(A[(n >> 18) as usize & 63] as char);
-    s.push(A[(n >> 12) as usize & 63] as char);
+    s.push(B64[(n >> 18) as usize & 63] as char);
+    s.push(B64[(n >> 12) as usize & 63] as char);
     if c.len() > 1 {
-      s.push(A[(n >> 6) as usize & 63] as char);
+      s.push(B64[(n >> 6) as usize & 63] as char);
     }
     if c.len() > 2 {
-      s.push(A[n as usize & 63] as char);
+      s.push(B64[n as usize & 63] as char);
     }
   }
   s
 }
 /// RFC 7638 §3: JSON object with exactly the required members (incl. kty), names in lexicographic
-/// order, no whitespace; SHA-256; base64url.
-fn rfc7638(t: usize, get: &dyn Fn(&str) -> Value) -> String {
+/// order, no whitespace.
+fn rfc7638_input(t: usize, get: &dyn Fn(&str) -> Value) -> String {
   let mut names: Vec<&str> = required(t).to_vec();
   names.push("kty");
   names.sort();
@@ -142,28 +313,67 @@ fn rfc7638(t: usize, get: &dyn Fn(&str) -> Value) -> String {
     .iter()
     .map(|n| format!("{}:{}", serde_json::to_string(n).unwrap(), if *n == "kty" { json!(KTY[t]).to_string() } else { get(n).to_string() }))
     .collect();
-  b64url(&Sha256::digest(format!("{{{}}}", body.join(",")).as_bytes()))
+  format!("{{{}}}", body.join(","))
+}
+/// ... SHA-256; base64url.
+fn rfc7638(t: usize, get: &dyn Fn(&str) -> Value) -> String {
+  b64url(&Sha256::digest(rfc7638_input(t, get).as_bytes()))
 }
 
 // ------------------------------------------------------------------ cases
 #[derive(Serialize, Deserialize, Debug, Clone, PartialEq)]
 enum Case {
   /// JSON text: declared kty, set of type-specific members (bits over U), optional members (bits over OPT),
-  /// key_ops menu entry, member order (0 sorted, 1 reversed, 2 rotated by half).
-  Json { kty: u8, members: u16, opts: u8, ops: u8, order: u8 },
+  /// key_ops menu entry, kid menu entry, member order (0 sorted, 1 reversed, 2 rotated by half), way of
+  /// deserialisation (see `VIAS`), value profiles of the public / private members.
+  Json { kty: u8, members: u16, opts: u8, ops: u8, kidv: u8, order: u8, via: u8, pubv: u8, privv: u8 },
+  /// Hand-enumerated edge shape (see `EDGES`) of a key of type `kty`, through `via`.
+  Edge { kty: u8, shape: u8, via: u8 },
   /// API path (see `PATHS`), parameter family, declared/target kty, private subset (bits over private_of(fam)),
-  /// optional members, key_ops menu entry.
-  Api { path: u8, fam: u8, declared: u8, privs: u8, opts: u8, ops: u8 },
-  /// VerificationMethod constructor (see `CTORS`) on a JWK of family `fam` with private subset `privs`.
-  Method { ctor: u8, fam: u8, privs: u8 },
-  /// Key generation: document type (0 core, 1 iota), scope (0 = VerificationMethod, 1..=5 relationships),
-  /// explicit fragment?, number of methods generated one after the other.
-  Generate { doc: u8, scope: u8, fragment: bool, count: u8 },
+  /// optional members, key_ops / kid menu entries, value profiles.
+  Api { path: u8, fam: u8, declared: u8, privs: u8, opts: u8, ops: u8, kidv: u8, pubv: u8, privv: u8 },
+  /// `JwkSet` document with the keys `SET_MENU[i]` in this order.
+  Set { keys: Vec<u8> },
+  /// VerificationMethod constructor (see `CTORS`) on a JWK of family `fam` with private subset `privs` (value
+  /// profile `privv`); `mtype`: method type for the builder (see `method_type`); `kidv`: kid menu entry.
+  Method { ctor: u8, fam: u8, privs: u8, privv: u8, mtype: u8, kidv: u8 },
+  /// Key generation: key type / algorithm pair (see `GEN_KINDS`), document type (0 core, 1 iota), scope
+  /// (0 = VerificationMethod, 1..=5 relationships), explicit fragment?, number of methods generated one after the other.
+  Generate { kind: u8, doc: u8, scope: u8, fragment: bool, count: u8 },
 }
 
-const PATHS: [&str; 7] =
-  ["from_params", "new+set_params", "from_params+set_kty", "new+try_params_mut", "params_mut-variant-swap", "set_params_unchecked", "to_json+from_json"];
-const CTORS: [&str; 4] = ["new_from_jwk(fragment)", "new_from_jwk(kid)", "MethodBuilder::build", "DIDJwk->VerificationMethod"];
+const VIAS: [&str; 6] =
+  ["from_json", "from_json_value", "from_json_slice", "JwkSet::from_json", "VerificationMethod::from_json", "DIDJwk::parse+jwk"];
+const PATHS: [&str; 8] = [
+  "from_params",
+  "new+set_params",
+  "from_params+set_kty",
+  "new+try_params_mut",
+  "params_mut-variant-swap",
+  "set_params_unchecked",
+  "to_json+from_json",
+  "from_params+set_kty+set_params",
+];
+const CTORS: [&str; 6] = [
+  "new_from_jwk(fragment)",
+  "new_from_jwk(kid)",
+  "MethodBuilder::build",
+  "DIDJwk->VerificationMethod",
+  "CoreDocument::expand_did_jwk",
+  "VerificationMethod::from_json",
+];
+const N_MTYPES: u8 = 5;
+#[allow(deprecated)]
+fn method_type(i: u8) -> MethodType {
+  match i % N_MTYPES {
+    0 => MethodType::JSON_WEB_KEY_2020,
+    1 => MethodType::JSON_WEB_KEY,
+    2 => MethodType::ED25519_VERIFICATION_KEY_2018,
+    3 => MethodType::X25519_KEY_AGREEMENT_KEY_2019,
+    _ => MethodType::custom("FooKey2042"),
+  }
+}
+const GEN_KINDS: [(&str, &str); 4] = [("Ed25519", "EdDSA"), ("BLS12381G2", "EdDSA"), ("Ed25519", "ES256"), ("NoSuchKeyType", "EdDSA")];
 
 #[derive(Default)]
 struct Verdict {
@@ -176,17 +386,33 @@ impl Verdict {
     self.viol.push((key.into(), what.into()));
   }
 }
+/// Vacuity counters (machinery self-checks at the end of the run, never verdicts).
+static PRIVATE_ARRIVED: AtomicU64 = AtomicU64::new(0);
+static PROJECTIONS: AtomicU64 = AtomicU64::new(0);
+static GENERATED_JWKS_SEEN: AtomicU64 = AtomicU64::new(0);
 
-fn json_text(kty: usize, members: u16, opts: u8, ops: u8, order: u8) -> String {
+fn clip(s: &str) -> String {
+  if s.len() <= 600 {
+    return s.to_string();
+  }
+  let mut cut = 600;
+  while !s.is_char_boundary(cut) {
+    cut -= 1;
+  }
+  format!("{}… ({} bytes)", &s[..cut], s.len())
+}
+
+#[allow(clippy::too_many_arguments)]
+fn json_text(kty: usize, members: u16, opts: u8, ops: u8, kidv: u8, order: u8, pubv: u8, privv: u8) -> String {
   let mut ms: Vec<(String, Value)> = vec![("kty".to_string(), json!(KTY[kty]))];
   for (i, n) in U.iter().enumerate() {
     if members & (1 << i) != 0 {
-      ms.push((n.to_string(), value_of(n, kty)));
+      ms.push((n.to_string(), value_of(n, kty, pubv, privv)));
     }
   }
   for (i, n) in OPT.iter().enumerate() {
     if opts & (1 << i) != 0 {
-      ms.push((n.to_string(), opt_value(n, ops)));
+      ms.push((n.to_string(), opt_value(n, ops, kidv)));
     }
   }
   ms.sort_by(|a, b| a.0.cmp(&b.0));
@@ -210,63 +436,190 @@ fn object_of(j: &Jwk) -> Result<serde_json::Map<String, Value>, String> {
     Err(p) => Err(format!("panic {}", p.msg)),
   }
 }
-fn private_names(m: &serde_json::Map<String, Value>) -> Vec<String> {
-  m.keys().filter(|k| PRIV.contains(&k.as_str())).cloned().collect()
+/// Members of `m` that are private in a key of type `t`.
+fn private_names(t: usize, m: &serde_json::Map<String, Value>) -> Vec<String> {
+  m.keys().filter(|k| priv_names(t).contains(&k.as_str())).cloned().collect()
 }
-/// Every object key anywhere in `v` that is a private member name.
-fn private_names_deep(v: &Value, out: &mut Vec<String>) {
-  match v {
-    Value::Object(m) => {
-      for (k, x) in m {
-        if PRIV.contains(&k.as_str()) {
-          out.push(k.clone());
-        }
-        private_names_deep(x, out);
+/// Private members by the public fields of `params()` (ground truth on the object itself).
+fn private_fields(p: &JwkParams) -> Vec<&'static str> {
+  let mut out = Vec::new();
+  match p {
+    JwkParams::Ec(p) => {
+      if p.d.is_some() {
+        out.push("d")
       }
     }
-    Value::Array(a) => a.iter().for_each(|x| private_names_deep(x, out)),
+    JwkParams::Okp(p) => {
+      if p.d.is_some() {
+        out.push("d")
+      }
+    }
+    JwkParams::Oct(_) => out.push("k"),
+    JwkParams::Rsa(p) => {
+      for (n, set) in [("d", p.d.is_some()), ("p", p.p.is_some()), ("q", p.q.is_some()), ("dp", p.dp.is_some()), ("dq", p.dq.is_some()), ("qi", p.qi.is_some()), ("oth", p.oth.is_some())] {
+        if set {
+          out.push(n)
+        }
+      }
+    }
+  }
+  out
+}
+fn public_fields(p: &JwkParams) -> Vec<(&'static str, Value)> {
+  match p {
+    JwkParams::Ec(p) => vec![("crv", json!(p.crv)), ("x", json!(p.x)), ("y", json!(p.y))],
+    JwkParams::Okp(p) => vec![("crv", json!(p.crv)), ("x", json!(p.x))],
+    JwkParams::Rsa(p) => vec![("e", json!(p.e)), ("n", json!(p.n))],
+    JwkParams::Oct(p) => vec![("k", json!(p.k))],
+  }
+}
+/// In every JSON object anywhere in `v` that looks like a JWK (has a string `kty`): the member names that are
+/// private for that key type (an unknown `kty`: for any type).
+fn jwk_private_names_deep(v: &Value, out: &mut Vec<String>, jwks: &mut u64) {
+  match v {
+    Value::Object(m) => {
+      if let Some(Value::String(k)) = m.get("kty") {
+        *jwks += 1;
+        let names: Vec<&str> = match KTY.iter().position(|n| n == k) {
+          Some(t) => priv_names(t).to_vec(),
+          None => vec!["d", "p", "q", "dp", "dq", "qi", "oth", "k"],
+        };
+        for n in m.keys() {
+          if names.contains(&n.as_str()) {
+            out.push(n.clone());
+          }
+        }
+      }
+      m.values().for_each(|x| jwk_private_names_deep(x, out, jwks));
+    }
+    Value::Array(a) => a.iter().for_each(|x| jwk_private_names_deep(x, out, jwks)),
     _ => {}
   }
 }
+fn scan(v: &Value) -> (Vec<String>, u64) {
+  let (mut names, mut jwks) = (Vec::new(), 0);
+  jwk_private_names_deep(v, &mut names, &mut jwks);
+  names.sort();
+  names.dedup();
+  (names, jwks)
+}
 
-/// The oracles on one coherent JWK of declared type `t` whose type-specific members have the values
-/// `value_of(_, t)`. `given_private`: Some(b) when the harness knows whether a private member of type `t`
-/// was put into the key.
-fn judge_jwk(entry: &str, j: &Jwk, t: usize, given_private: Option<bool>, v: &mut Verdict) {
+/// What the harness knows about a key: declared type, value profiles (=> expected public values), whether the
+/// thumbprint is judged (not for values that need JSON escaping), whether a private member was given.
+struct Expect {
+  t: usize,
+  pubv: u8,
+  privv: u8,
+  thumb: bool,
+  given_private: Option<bool>,
+}
+impl Expect {
+  fn val(&self, n: &str) -> Value {
+    value_of(n, self.t, self.pubv, self.privv)
+  }
+}
+
+/// The oracles on one coherent JWK of declared type `x.t`.
+fn judge_jwk(entry: &str, j: &Jwk, x: &Expect, v: &mut Verdict) {
+  let t = x.t;
+  let entry = &clip(entry);
   let obj = match object_of(j) {
     Ok(o) => o,
     Err(e) => return v.v("Jwk::to_json|failed", e),
   };
-  let carried = private_names(&obj);
+  if obj.get("kty") != Some(&json!(KTY[t])) {
+    v.v("Jwk::to_json|kty-differs-from-declared", format!("{entry}: kty() = {}, serialised {:?}", KTY[t], obj.get("kty")));
+  }
+  // the typed accessors agree with the declared type
+  let acc = [j.try_ec_params().is_ok(), j.try_rsa_params().is_ok(), j.try_oct_params().is_ok(), j.try_okp_params().is_ok()];
+  if (0..4).any(|i| acc[i] != (i == t)) {
+    v.v("Jwk::try_params|accessor-disagrees-with-kty", format!("{entry}: kty {}, try_{{ec,rsa,oct,okp}}_params ok = {acc:?}", KTY[t]));
+  }
+  // ground truth: a private member is present when its field is set or its name is serialised
+  let carried = private_names(t, &obj);
+  let fields = private_fields(j.params());
+  let has_private = !carried.is_empty() || !fields.is_empty();
+  match x.given_private {
+    Some(true) if has_private => {
+      PRIVATE_ARRIVED.fetch_add(1, Ordering::Relaxed);
+    }
+    Some(true) => v.outcome += "/given-private-member-not-retained(recorded)",
+    _ => {}
+  }
+  if carried.len() != fields.len() {
+    v.outcome += "/fields-vs-json-differ(recorded)";
+  }
   // is_public <=> no private member
-  let is_public = match guard(|| j.is_public()) {
-    Ok(b) => b,
+  let is_public = match guard(|| (j.is_public(), j.params().is_public())) {
+    Ok((a, b)) => {
+      if a != b {
+        v.v("JwkParams::is_public|differs-from-Jwk::is_public", format!("{entry}: Jwk {a}, JwkParams {b}"));
+      }
+      a
+    }
     Err(p) => return v.v(format!("Jwk::is_public|{}", p.key()), p.msg),
   };
-  let has_private = given_private.unwrap_or(!carried.is_empty()) || !carried.is_empty();
   if is_public && has_private {
-    v.v("Jwk::is_public|true-with-private-member", format!("{entry}: members {:?} carried, is_public() = true", carried));
+    v.v("Jwk::is_public|true-with-private-member", format!("{entry}: members {carried:?} / fields {fields:?} carried, is_public() = true"));
   }
   if !is_public && !has_private {
     v.v("Jwk::is_public|false-without-private-member", format!("{entry}: no private member, is_public() = false"));
   }
-  if let Some(true) = given_private {
-    if carried.is_empty() {
-      v.v("Jwk::to_json|private-member-lost", format!("{entry}: a private member was given, none is serialised"));
-    }
-  }
-  if t != OCT && is_public && matches!(guard(|| j.is_private()), Ok(true)) {
-    v.v("Jwk::is_private|true-for-public-key", entry.to_string());
-  }
-  // thumbprint == independent RFC 7638 over the required members only
-  let want_tp = rfc7638(t, &|n| value_of(n, t));
-  match guard(|| (j.thumbprint_sha256_b64(), b64url(&j.thumbprint_sha256()))) {
-    Ok((a, b)) => {
-      if a != want_tp || b != want_tp {
-        v.v("Jwk::thumbprint_sha256_b64|differs-from-rfc7638", format!("{entry}: got {a} / {b}, RFC 7638 gives {want_tp}; hash input {:?}", j.thumbprint_hash_input()));
+  // is_private: judged only where "all private members set" and "some private member set" agree
+  match guard(|| j.is_private()) {
+    Err(p) => v.v(format!("Jwk::is_private|{}", p.key()), p.msg),
+    Ok(b) => {
+      let all = match t {
+        RSA => ["d", "p", "q", "dp", "dq", "qi"].iter().all(|n| fields.contains(n)),
+        _ => !fields.is_empty(),
+      };
+      if !has_private && b {
+        v.v("Jwk::is_private|true-for-public-key", entry.to_string());
+      } else if all && !b {
+        v.v("Jwk::is_private|false-with-all-private-members", format!("{entry}: fields {fields:?}"));
+      } else if has_private && !all {
+        v.outcome += if b { "/is_private:partial=true" } else { "/is_private:partial=false" };
       }
     }
-    Err(p) => v.v(format!("Jwk::thumbprint_sha256_b64|{}", p.key()), p.msg),
+  }
+  // thumbprint == independent RFC 7638 over the required members only
+  if x.thumb {
+    let want_in = rfc7638_input(t, &|n| x.val(n));
+    let want_tp = b64url(&Sha256::digest(want_in.as_bytes()));
+    match guard(|| (j.thumbprint_sha256_b64(), b64url(&j.thumbprint_sha256()), j.thumbprint_hash_input())) {
+      Ok((a, b, input)) => {
+        if a != want_tp || b != want_tp {
+          v.v("Jwk::thumbprint_sha256_b64|differs-from-rfc7638", format!("{entry}: got {a} / {b}, RFC 7638 gives {want_tp}; hash input {:?}", clip(&input)));
+        } else if input != want_in {
+          v.v("Jwk::thumbprint_hash_input|differs-from-rfc7638", format!("{entry}: got {:?}, RFC 7638 gives {:?}", clip(&input), clip(&want_in)));
+        }
+      }
+      Err(p) => v.v(format!("Jwk::thumbprint_sha256_b64|{}", p.key()), p.msg),
+    }
+  } else {
+    let same = matches!(guard(|| j.thumbprint_sha256_b64()), Ok(a) if a == rfc7638(t, &|n| x.val(n)));
+    v.outcome += if same { "/thumbprint(escape-needed)=rfc7638(recorded)" } else { "/thumbprint(escape-needed)!=rfc7638(recorded)" };
+  }
+  // parameter-level projection
+  match guard(|| j.params().to_public()) {
+    Err(p) => v.v(format!("JwkParams::to_public|{}", p.key()), p.msg),
+    Ok(None) => {
+      if t != OCT {
+        v.v("JwkParams::to_public|none-for-asymmetric-key", format!("{entry}: kty {}", KTY[t]));
+      }
+    }
+    Ok(Some(pp)) => {
+      let kept = private_fields(&pp);
+      if !kept.is_empty() {
+        v.v("JwkParams::to_public|private-field-kept", format!("{entry}: {kept:?}"));
+      } else if type_index(pp.kty()) != t {
+        v.v("JwkParams::to_public|kty-changed", format!("{entry}: {} -> {}", KTY[t], pp.kty()));
+      } else if public_fields(&pp).iter().any(|(n, val)| *val != x.val(n)) {
+        v.v("JwkParams::to_public|public-parameter-changed", format!("{entry}: {}", clip(&format!("{:?}", public_fields(&pp)))));
+      } else if !matches!(guard(|| pp.is_public()), Ok(true)) {
+        v.v("JwkParams::to_public|result-not-public", entry.to_string());
+      }
+    }
   }
   // public projection
   let p = match guard(|| j.to_public()) {
@@ -284,26 +637,33 @@ fn judge_jwk(entry: &str, j: &Jwk, t: usize, given_private: Option<bool>, v: &mu
     Some(p) => p,
   };
   v.outcome += "/projection:some";
+  PROJECTIONS.fetch_add(1, Ordering::Relaxed);
   let pobj = match object_of(&p) {
     Ok(o) => o,
     Err(e) => return v.v("Jwk::to_json|failed", e),
   };
+  let ptext = Value::Object(pobj.clone()).to_string();
   // one defect, one key: kept member names first, then (only if none) a private value under another name,
   // then (only if neither) a projection that does not report itself public
-  let kept = private_names(&pobj);
-  let leaks_value = Value::Object(pobj.clone()).to_string().contains("SECRET");
+  let mut kept = private_names(t, &pobj);
+  for f in private_fields(p.params()) {
+    if !kept.iter().any(|k| k == f) {
+      kept.push(f.to_string());
+    }
+  }
+  let leaks_value = leaks(&ptext);
   for n in &kept {
-    v.v(format!("Jwk::to_public|private-member-kept|{n}"), format!("{entry}: projection {}", Value::Object(pobj.clone())));
+    v.v(format!("Jwk::to_public|private-member-kept|{n}"), format!("{entry}: projection {}", clip(&ptext)));
   }
   if kept.is_empty() && leaks_value {
-    v.v("Jwk::to_public|private-value-kept", format!("{entry}: projection {}", Value::Object(pobj.clone())));
+    v.v("Jwk::to_public|private-value-kept", format!("{entry}: projection {}", clip(&ptext)));
   }
   if type_index(p.kty()) != t || pobj.get("kty") != Some(&json!(KTY[t])) || type_index(p.params().kty()) != t {
     v.v("Jwk::to_public|kty-changed", format!("{entry}: {} -> {:?}", KTY[t], pobj.get("kty")));
   }
   for n in required(t) {
-    if pobj.get(*n) != Some(&value_of(n, t)) {
-      v.v(format!("Jwk::to_public|public-parameter-changed|{n}"), format!("{entry}: {:?}", pobj.get(*n)));
+    if pobj.get(*n) != Some(&x.val(n)) {
+      v.v(format!("Jwk::to_public|public-parameter-changed|{n}"), format!("{entry}: {}", clip(&format!("{:?}", pobj.get(*n)))));
     }
   }
   if kept.is_empty() && !leaks_value && !matches!(guard(|| p.is_public()), Ok(true)) {
@@ -317,8 +677,9 @@ fn judge_jwk(entry: &str, j: &Jwk, t: usize, given_private: Option<bool>, v: &mu
   // idempotence
   match guard(|| p.to_public()) {
     Ok(Some(pp)) => {
-      if pp != p {
-        let ppobj = object_of(&pp).unwrap_or_default();
+      // compared in serialised form (every member of a Jwk is serialised): independent of how `==` is defined
+      let ppobj = object_of(&pp).unwrap_or_default();
+      if ppobj != pobj {
         let mut names: Vec<&String> = pobj.keys().chain(ppobj.keys()).collect();
         names.sort();
         let m = names.into_iter().find(|n| pobj.get(*n) != ppobj.get(*n)).cloned().unwrap_or_else(|| "?".into());
@@ -347,13 +708,14 @@ fn coherent(j: &Jwk, want: Option<usize>) -> Result<(), String> {
   Ok(())
 }
 
-fn params_of(fam: usize, privs: u8) -> JwkParams {
-  let s = |n: &str, i: u8| if privs & (1 << i) != 0 { Some(format!("SECRET_{n}")) } else { None };
+fn params_of(fam: usize, privs: u8, pubv: u8, privv: u8) -> JwkParams {
+  let pv = |n: &str| value_of(n, fam, pubv, privv).as_str().unwrap_or_default().to_string();
+  let s = |n: &str, i: u8| if privs & (1 << i) != 0 { Some(pv(n)) } else { None };
   match fam {
-    EC => JwkParams::Ec(JwkParamsEc { crv: "P-256".into(), x: EC_X.into(), y: EC_Y.into(), d: s("d", 0) }),
+    EC => JwkParams::Ec(JwkParamsEc { crv: pv("crv"), x: pv("x"), y: pv("y"), d: s("d", 0) }),
     RSA => JwkParams::Rsa(JwkParamsRsa {
-      n: RSA_N.into(),
-      e: "AQAB".into(),
+      n: pv("n"),
+      e: pv("e"),
       d: s("d", 0),
       p: s("p", 1),
       q: s("q", 2),
@@ -361,26 +723,38 @@ fn params_of(fam: usize, privs: u8) -> JwkParams {
       dq: s("dq", 4),
       qi: s("qi", 5),
       oth: if privs & 64 != 0 {
-        Some(vec![JwkParamsRsaPrime { r: "SECRET_oth_r".into(), d: "SECRET_oth_d".into(), t: "SECRET_oth_t".into() }])
+        let primes = value_of("oth", RSA, pubv, privv);
+        let g = |p: &Value, n: &str| p.get(n).and_then(|x| x.as_str()).unwrap_or_default().to_string();
+        Some(primes.as_array().cloned().unwrap_or_default().iter().map(|p| JwkParamsRsaPrime { r: g(p, "r"), d: g(p, "d"), t: g(p, "t") }).collect())
       } else {
         None
       },
     }),
-    OCT => JwkParams::Oct(JwkParamsOct { k: "SECRET_k".into() }),
-    _ => JwkParams::Okp(JwkParamsOkp { crv: "Ed25519".into(), x: OKP_X.into(), d: s("d", 0) }),
+    OCT => JwkParams::Oct(JwkParamsOct { k: pv("k") }),
+    _ => JwkParams::Okp(JwkParamsOkp { crv: pv("crv"), x: pv("x"), d: s("d", 0) }),
   }
 }
 fn n_privs(fam: usize) -> u32 {
   1 << private_of(fam).len()
 }
 fn ops_of(ops: u8) -> Vec<JwkOperation> {
-  match ops % 3 {
-    0 => vec![JwkOperation::Sign],
-    1 => vec![JwkOperation::Verify],
-    _ => vec![JwkOperation::DeriveKey, JwkOperation::DeriveBits],
-  }
+  OPS_MENU[ops as usize % OPS_MENU.len()]
+    .iter()
+    .map(|o| match *o {
+      "sign" => JwkOperation::Sign,
+      "verify" => JwkOperation::Verify,
+      "encrypt" => JwkOperation::Encrypt,
+      "decrypt" => JwkOperation::Decrypt,
+      "wrapKey" => JwkOperation::WrapKey,
+      "unwrapKey" => JwkOperation::UnwrapKey,
+      "deriveKey" => JwkOperation::DeriveKey,
+      "deriveBits" => JwkOperation::DeriveBits,
+      "proofGeneration" => JwkOperation::ProofGeneration,
+      _ => JwkOperation::ProofVerification,
+    })
+    .collect()
 }
-fn set_opts(j: &mut Jwk, opts: u8, ops: u8) {
+fn set_opts(j: &mut Jwk, opts: u8, ops: u8, kidv: u8) {
   if opts & 1 != 0 {
     j.set_use(JwkUse::Signature);
   }
@@ -391,7 +765,7 @@ fn set_opts(j: &mut Jwk, opts: u8, ops: u8) {
     j.set_alg("EdDSA");
   }
   if opts & 8 != 0 {
-    j.set_kid("key-1");
+    j.set_kid(kid_value(kidv));
   }
   if opts & 16 != 0 {
     j.set_x5u(Url::parse("https://example.com/cert.pem").unwrap());
@@ -409,23 +783,156 @@ fn set_opts(j: &mut Jwk, opts: u8, ops: u8) {
 fn has_priv(fam: usize, privs: u8) -> bool {
   fam == OCT || privs != 0
 }
+/// The family on which acceptance is demanded: RFC example key material, no optional member except a plain kid.
+fn baseline(opts: u8, kidv: u8, pubv: u8, privv: u8) -> bool {
+  (opts == 0 || (opts == OPT_KID && kidv == 0)) && pubv == 0 && privv == 0
+}
+
+/// Hand a JSON text to `Jwk`'s deserialiser in one of the ways of `VIAS`.
+fn obtain(via: u8, text: &str) -> Result<Result<Jwk, String>, vx::Panicked> {
+  guard(|| match via {
+    0 => Jwk::from_json(text).map_err(|e| e.to_string()),
+    1 => {
+      let val: Value = serde_json::from_str(text).map_err(|e| format!("(harness) not JSON: {e}"))?;
+      Jwk::from_json_value(val).map_err(|e| e.to_string())
+    }
+    2 => Jwk::from_json_slice(text.as_bytes()).map_err(|e| e.to_string()),
+    3 => JwkSet::from_json(&format!("{{\"keys\":[{text}]}}"))
+      .map_err(|e| e.to_string())
+      .and_then(|s| s.as_slice().first().cloned().ok_or_else(|| "no key in the set".to_string())),
+    4 => VerificationMethod::from_json(&format!(
+      r#"{{"id":"did:example:123#k","controller":"did:example:123","type":"JsonWebKey2020","publicKeyJwk":{text}}}"#
+    ))
+    .map_err(|e| e.to_string())
+    .and_then(|m| m.data().public_key_jwk().cloned().ok_or_else(|| "method data is not a JWK".to_string())),
+    _ => DIDJwk::parse(&format!("did:jwk:{}", b64url(text.as_bytes()))).map_err(|e| e.to_string()).map(|d| d.jwk()),
+  })
+}
+
+/// One defect, one key: ways 0-2 are `Deserialize for Jwk` itself; a wrapper (set, method, did:jwk) gets a key of
+/// its own only when the same text handed to `Jwk::from_json` does not come out incoherent as well.
+fn incoherent_key(via: u8, text: &str) -> String {
+  let direct_is_fine = match obtain(0, text) {
+    Ok(Ok(j)) => coherent(&j, None).is_ok(),
+    _ => true,
+  };
+  if via <= 2 || !direct_is_fine {
+    "Jwk::from_json|accepted|kty-differs-from-params-family".into()
+  } else {
+    format!("{}|accepted|kty-differs-from-params-family", VIAS[via as usize])
+  }
+}
+
+const EDGES: [&str; 25] = [
+  "dup-kty-other-last",
+  "dup-kty-other-first",
+  "d-null",
+  "d-secret-then-null",
+  "d-null-then-secret",
+  "oth-null",
+  "oth-empty",
+  "oth-twice",
+  "d-number",
+  "d-object",
+  "d-array",
+  "kty-lowercase",
+  "kty-null",
+  "kty-number",
+  "kty-array",
+  "unknown-members",
+  "pretty-printed",
+  "use-unknown",
+  "key_ops-unknown",
+  "x5u-not-a-url",
+  "required-null",
+  "required-number",
+  "all-private-null",
+  "trailing-garbage",
+  "wrapped-in-array",
+];
+/// Text of an edge shape; `None` when the shape does not exist for the type.
+fn edge_text(t: usize, shape: u8) -> Option<String> {
+  let other = KTY[(t + 1) % 4];
+  let req: Vec<String> = required(t).iter().map(|n| format!("\"{n}\":{}", value_of(n, t, 0, 0))).collect();
+  let req = req.join(",");
+  let kty = format!("\"kty\":\"{}\"", KTY[t]);
+  let d = value_of("d", t, 0, 0);
+  let has_d = t != OCT;
+  Some(match EDGES[shape as usize] {
+    "dup-kty-other-last" => format!("{{{kty},{req},\"kty\":\"{other}\"}}"),
+    "dup-kty-other-first" => format!("{{\"kty\":\"{other}\",{kty},{req}}}"),
+    "d-null" if has_d => format!("{{{kty},{req},\"d\":null}}"),
+    "d-secret-then-null" if has_d => format!("{{{kty},\"d\":{d},{req},\"d\":null}}"),
+    "d-null-then-secret" if has_d => format!("{{{kty},\"d\":null,{req},\"d\":{d}}}"),
+    "oth-null" if t == RSA => format!("{{{kty},{req},\"oth\":null}}"),
+    "oth-empty" if t == RSA => format!("{{{kty},{req},\"oth\":[]}}"),
+    "oth-twice" if t == RSA => format!("{{{kty},\"oth\":{o},{req},\"oth\":{o}}}", o = value_of("oth", RSA, 0, 0)),
+    "d-number" if has_d => format!("{{{kty},{req},\"d\":5}}"),
+    "d-object" if has_d => format!("{{{kty},{req},\"d\":{{\"d\":{d}}}}}"),
+    "d-array" if has_d => format!("{{{kty},{req},\"d\":[{d}]}}"),
+    "kty-lowercase" => format!("{{\"kty\":\"{}\",{req}}}", if t == OCT { "OCT".to_string() } else { KTY[t].to_lowercase() }),
+    "kty-null" => format!("{{\"kty\":null,{req}}}"),
+    "kty-number" => format!("{{\"kty\":{t},{req}}}"),
+    "kty-array" => format!("{{\"kty\":[\"{}\"],{req}}}", KTY[t]),
+    "unknown-members" => format!("{{{kty},{req},\"foo\":{{\"d\":{d},\"kty\":\"{other}\"}},\"D\":\"x\",\"private\":true}}"),
+    "pretty-printed" => format!("\n {{ {} }}\n", format!("{kty},{req}").replace(',', " ,\n\t").replace("\":", "\" : ")),
+    "use-unknown" => format!("{{{kty},{req},\"use\":\"nope\"}}"),
+    "key_ops-unknown" => format!("{{{kty},{req},\"key_ops\":[\"sign\",\"nope\"]}}"),
+    "x5u-not-a-url" => format!("{{{kty},{req},\"x5u\":\"not a url\"}}"),
+    "required-null" => format!("{{{kty},{}}}", required(t).iter().map(|n| format!("\"{n}\":null")).collect::<Vec<_>>().join(",")),
+    "required-number" => format!("{{{kty},{}}}", required(t).iter().map(|n| format!("\"{n}\":7")).collect::<Vec<_>>().join(",")),
+    "all-private-null" if t != OCT => format!("{{{kty},{req},{}}}", private_of(t).iter().map(|n| format!("\"{n}\":null")).collect::<Vec<_>>().join(",")),
+    "trailing-garbage" => format!("{{{kty},{req}}} x"),
+    "wrapped-in-array" => format!("[{{{kty},{req}}}]"),
+    _ => return None,
+  })
+}
+
+/// Menu of key documents for the `set` part: (kty, members besides the required ones, kid menu entry or none).
+/// 7 and 8 declare a type that mismatches the members they carry.
+const SET_MENU: [(usize, &[&str], Option<u8>); 11] = [
+  (EC, &[], Some(0)),
+  (EC, &["d"], Some(0)),
+  (RSA, &[], Some(2)),
+  (RSA, &["d", "p", "q", "dp", "dq", "qi"], None),
+  (OCT, &[], Some(0)),
+  (OKP, &[], Some(3)),
+  (OKP, &["d"], Some(2)),
+  (EC, &["MISMATCH-okp"], None),
+  (RSA, &["MISMATCH-oct"], Some(0)),
+  (RSA, &["d"], Some(1)),
+  (OKP, &[], None),
+];
+fn set_key_text(i: u8) -> String {
+  let (t, extra, kid) = SET_MENU[i as usize];
+  let (opts, kidv) = match kid {
+    Some(k) => (OPT_KID, k),
+    None => (0, 0),
+  };
+  let members = match extra.first() {
+    Some(&"MISMATCH-okp") => mask(&["crv", "x"]),
+    Some(&"MISMATCH-oct") => mask(&["k"]),
+    _ => mask(required(t)) | mask(extra),
+  };
+  json_text(t, members, opts, 0, kidv, i % 3, 0, 0)
+}
 
 fn judge(case: &Case) -> Verdict {
   let mut v = Verdict::default();
-  match *case {
-    Case::Json { kty, members, opts, ops, order } => {
+  match case {
+    &Case::Json { kty, members, opts, ops, kidv, order, via, pubv, privv } => {
       let t = kty as usize;
-      let text = json_text(t, members, opts, ops, order);
+      let text = json_text(t, members, opts, ops, kidv, order, pubv, privv);
+      let ctext = clip(&text);
+      let vname = VIAS[via as usize];
       let req = mask(required(t));
       let privm = mask(private_of(t));
       let complete = members & req == req;
       let foreign = members & !(req | privm) != 0;
       let given = members & privm;
       // private sets every conforming producer may emit (RFC 7518 §6.3.2: d alone, or all CRT members, optionally + oth)
-      let regular_private = match t {
-        RSA => [0, mask(&["d"]), mask(&["d", "p", "q", "dp", "dq", "qi"]), mask(&["d", "p", "q", "dp", "dq", "qi", "oth"])].contains(&given),
-        _ => true,
-      };
+      let crt = mask(&["d", "p", "q", "dp", "dq", "qi"]);
+      let regular_private = t != RSA || [0, mask(&["d"]), crt, crt | mask(&["oth"])].contains(&given);
       let shape = if !complete {
         "required-missing"
       } else if foreign {
@@ -435,77 +942,132 @@ fn judge(case: &Case) -> Verdict {
       } else {
         "well-formed"
       };
-      let r = match guard(|| Jwk::from_json(&text)) {
+      // acceptance is demanded only for the direct entry points on RFC example material (no `oth`: the RFCs have
+      // no three-prime example key)
+      let must_accept = shape == "well-formed" && via <= 2 && baseline(opts, kidv, pubv, privv) && given & mask(&["oth"]) == 0;
+      let r = match obtain(via, &text) {
         Ok(r) => r,
         Err(p) => {
-          v.v(format!("Jwk::from_json|{}", p.key()), format!("{text}: {}", p.msg));
-          v.outcome = format!("json:{shape}:panic");
+          v.v(format!("{vname}|{}", p.key()), format!("{ctext}: {}", p.msg));
+          v.outcome = format!("json:{vname}:{shape}:panic");
           return v;
         }
       };
       let j = match r {
         Err(e) => {
-          if shape == "well-formed" {
-            v.v("Jwk::from_json|well-formed-jwk-rejected", format!("{text}: {e}"));
+          if must_accept {
+            v.v("Jwk::from_json|well-formed-jwk-rejected", format!("{vname} {ctext}: {e}"));
           }
-          v.outcome = format!("json:{shape}:rejected");
+          v.outcome = format!("json:{vname}:{shape}:rejected");
           return v;
         }
         Ok(j) => j,
       };
       v.nontrivial = true;
       if let Err(why) = coherent(&j, Some(t)) {
-        v.v("Jwk::from_json|accepted|kty-differs-from-params-family", format!("{text}: {why}"));
-        v.outcome = format!("json:{shape}:accepted-incoherent");
+        v.v(incoherent_key(via, &text), format!("{vname} {ctext}: {why}"));
+        v.outcome = format!("json:{vname}:{shape}:accepted-incoherent");
         return v;
       }
-      v.outcome = format!("json:{shape}:accepted:{}", if given != 0 || t == OCT { "private" } else { "public" });
+      v.outcome = format!("json:{vname}:{shape}:accepted:{}", if given != 0 || t == OCT { "private" } else { "public" });
       if !complete {
         // cannot happen with a coherent result (required members are non-optional strings); nothing more to judge
         return v;
       }
-      let given_private = if foreign { None } else { Some(given != 0 || t == OCT) };
-      judge_jwk(&text, &j, t, given_private, &mut v);
+      let x = Expect { t, pubv, privv, thumb: !needs_escape(t, pubv), given_private: Some(given != 0 || t == OCT) };
+      judge_jwk(&format!("{vname} {text}"), &j, &x, &mut v);
       // re-serialise and re-parse: the key obtained that way is coherent too
       if let Ok(Ok(s)) = guard(|| j.to_json()) {
         match guard(|| Jwk::from_json(&s)) {
           Ok(Ok(back)) => {
             if let Err(why) = coherent(&back, Some(t)) {
-              v.v("Jwk::from_json|accepted|kty-differs-from-params-family", format!("re-parse of own output {s}: {why}"));
+              v.v("Jwk::from_json|accepted|kty-differs-from-params-family", format!("re-parse of own output {}: {why}", clip(&s)));
             }
           }
-          Ok(Err(e)) => v.v("Jwk::from_json|own-output-rejected", format!("{s}: {e}")),
+          Ok(Err(e)) => {
+            if must_accept {
+              v.v("Jwk::from_json|own-output-rejected", format!("{}: {e}", clip(&s)));
+            } else {
+              v.outcome += "/own-output-rejected(recorded)";
+            }
+          }
           Err(p) => v.v(format!("Jwk::from_json|{}", p.key()), p.msg),
         }
       }
     }
-    Case::Api { path, fam, declared, privs, opts, ops } => {
+    &Case::Edge { kty, shape, via } => {
+      let t = kty as usize;
+      let name = EDGES[shape as usize];
+      let text = match edge_text(t, shape) {
+        Some(s) => s,
+        None => {
+          v.outcome = "edge:not-applicable".into();
+          return v;
+        }
+      };
+      let vname = VIAS[via as usize];
+      match obtain(via, &text) {
+        Err(p) => {
+          v.v(format!("{vname}|{}", p.key()), format!("{text}: {}", p.msg));
+          v.outcome = format!("edge:{name}:panic");
+        }
+        Ok(Err(_)) => v.outcome = format!("edge:{name}:rejected"),
+        Ok(Ok(j)) => {
+          v.nontrivial = true;
+          // with a duplicated `kty` either declaration may win; otherwise the declared one
+          let want = if name.starts_with("dup-kty") || name.starts_with("kty-") { None } else { Some(t) };
+          if let Err(why) = coherent(&j, want) {
+            v.v(incoherent_key(via, &text), format!("{vname} {text}: {why}"));
+            v.outcome = format!("edge:{name}:accepted-incoherent");
+            return v;
+          }
+          v.outcome = format!("edge:{name}:accepted:{}", if private_fields(j.params()).is_empty() { "public" } else { "private" });
+          if type_index(j.kty()) == t {
+            let x = Expect { t, pubv: 0, privv: 0, thumb: true, given_private: None };
+            judge_jwk(&format!("{vname} {text}"), &j, &x, &mut v);
+          }
+        }
+      }
+    }
+    &Case::Api { path, fam, declared, privs, opts, ops, kidv, pubv, privv } => {
       let (f, d) = (fam as usize, declared as usize);
       let name = PATHS[path as usize];
-      let entry = format!("{name} fam={} declared={} privs={privs:#b} opts={opts:#b}", KTY[f], KTY[d]);
+      let entry = format!("{name} fam={} declared={} privs={privs:#b} opts={opts:#b} ops={ops} kid={kidv} values={pubv}/{privv}", KTY[f], KTY[d]);
       v.nontrivial = true;
       match path {
-        0 | 3 | 6 => {
+        0 | 3 | 6 | 7 => {
+          // (7: the key ends up with the `declared` type and its parameters)
+          let tt = if path == 7 { d } else { f };
           let built = guard(|| {
-            let mut j = if path == 3 {
-              let mut j = Jwk::new(jwk_type(f));
-              match &params_of(f, privs) {
-                JwkParams::Ec(p) => *j.try_ec_params_mut().expect("ec") = p.clone(),
-                JwkParams::Rsa(p) => *j.try_rsa_params_mut().expect("rsa") = p.clone(),
-                JwkParams::Oct(p) => *j.try_oct_params_mut().expect("oct") = p.clone(),
-                JwkParams::Okp(p) => *j.try_okp_params_mut().expect("okp") = p.clone(),
+            let mut j = match path {
+              3 => {
+                let mut j = Jwk::new(jwk_type(f));
+                let wrong = |_| format!("Jwk::new({}) has no {} parameters", KTY[f], KTY[f]);
+                match &params_of(f, privs, pubv, privv) {
+                  JwkParams::Ec(p) => *j.try_ec_params_mut().map_err(wrong)? = p.clone(),
+                  JwkParams::Rsa(p) => *j.try_rsa_params_mut().map_err(wrong)? = p.clone(),
+                  JwkParams::Oct(p) => *j.try_oct_params_mut().map_err(wrong)? = p.clone(),
+                  JwkParams::Okp(p) => *j.try_okp_params_mut().map_err(wrong)? = p.clone(),
+                }
+                j
               }
-              j
-            } else {
-              Jwk::from_params(params_of(f, privs))
+              7 => {
+                // a private key of family f, retyped, then given parameters of the new type
+                let mut j = Jwk::from_params(params_of(f, n_privs(f) as u8 - 1, 0, 0));
+                j.set_kty(jwk_type(d));
+                j.set_params(params_of(d, privs, pubv, privv)).map_err(|e| format!("matching set_params: {e}"))?;
+                j
+              }
+              _ => Jwk::from_params(params_of(f, privs, pubv, privv)),
             };
-            set_opts(&mut j, opts, ops);
+            set_opts(&mut j, opts, ops, kidv);
             if path == 6 {
               let s = j.to_json().map_err(|e| format!("to_json: {e}"))?;
-              return Jwk::from_json(&s).map_err(|e| format!("from_json({s}): {e}"));
+              return Jwk::from_json(&s).map_err(|e| format!("from_json({}): {e}", clip(&s)));
             }
             Ok::<Jwk, String>(j)
           });
+          let crt_or_d = tt != RSA || [0u8, 1, 63].contains(&privs);
           let j = match built {
             Err(p) => {
               v.v(format!("Jwk::{name}|{}", p.key()), p.msg);
@@ -513,32 +1075,42 @@ fn judge(case: &Case) -> Verdict {
               return v;
             }
             Ok(Err(e)) => {
-              v.v(format!("Jwk::{name}|own-key-rejected"), format!("{entry}: {e}"));
+              // path 3: Jwk::new gave parameters of another family; path 7: documented acceptance of matching
+              // parameters; path 6: acceptance is demanded only on the baseline family
+              if path != 6 || (baseline(opts, kidv, pubv, privv) && crt_or_d) {
+                v.v(format!("Jwk::{name}|own-key-rejected"), format!("{entry}: {e}"));
+              }
               v.outcome = format!("api:{name}:rejected");
               return v;
             }
             Ok(Ok(j)) => j,
           };
-          if let Err(why) = coherent(&j, Some(f)) {
+          if let Err(why) = coherent(&j, Some(tt)) {
             v.v(format!("Jwk::{name}|kty-differs-from-params-family"), format!("{entry}: {why}"));
             v.outcome = format!("api:{name}:incoherent");
             return v;
           }
-          v.outcome = format!("api:{name}:{}", if has_priv(f, privs) { "private" } else { "public" });
-          judge_jwk(&entry, &j, f, Some(has_priv(f, privs)), &mut v);
+          v.outcome = format!("api:{name}:{}", if has_priv(tt, privs) { "private" } else { "public" });
+          let x = Expect { t: tt, pubv, privv, thumb: !needs_escape(tt, pubv), given_private: Some(has_priv(tt, privs)) };
+          judge_jwk(&entry, &j, &x, &mut v);
+          if path == 7 && f != d && matches!(guard(|| j.to_json()), Ok(Ok(s)) if leaks(&s) && !has_priv(tt, privs)) {
+            v.v("Jwk::set_kty|previous-private-parameters-survive", entry.clone());
+          }
         }
         1 => {
           let mut j = Jwk::new(jwk_type(d));
           let fresh = j.clone();
-          match guard(|| j.set_params(params_of(f, privs))) {
+          match guard(|| j.set_params(params_of(f, privs, pubv, privv))) {
             Err(p) => v.v(format!("Jwk::set_params|{}", p.key()), p.msg),
             Ok(r) => {
-              if let Err(why) = coherent(&j, Some(d)) {
+              // whatever set_params answers, the key must stay coherent (a set_params that adopts the type of
+              // the parameters would be coherent too; the documentation promises an error instead: recorded)
+              if let Err(why) = coherent(&j, None) {
                 v.v("Jwk::set_params|kty-differs-from-params-family", format!("{entry}: returned {:?}; {why}", r.is_ok()));
               }
               match r {
                 Ok(()) => {
-                  if f == d && j.params() != &params_of(f, privs) {
+                  if f == d && j.params() != &params_of(f, privs, pubv, privv) {
                     v.v("Jwk::set_params|params-not-stored", entry.clone());
                   }
                   v.outcome = format!("api:{name}:{}", if f == d { "matching-accepted" } else { "mismatch-accepted" });
@@ -547,30 +1119,33 @@ fn judge(case: &Case) -> Verdict {
                   if f == d {
                     v.v("Jwk::set_params|matching-params-rejected", entry.clone());
                   }
-                  if j != fresh {
-                    v.v("Jwk::set_params|rejected-but-changed", entry.clone());
-                  }
-                  v.outcome = format!("api:{name}:{}", if f == d { "matching-rejected" } else { "mismatch-rejected" });
+                  v.outcome = format!(
+                    "api:{name}:{}{}",
+                    if f == d { "matching-rejected" } else { "mismatch-rejected" },
+                    if object_of(&j).ok() != object_of(&fresh).ok() { "-but-changed(recorded)" } else { "" }
+                  );
                 }
               }
             }
           }
         }
         2 => {
-          let mut j = Jwk::from_params(params_of(f, privs));
-          set_opts(&mut j, opts, ops);
+          let mut j = Jwk::from_params(params_of(f, privs, pubv, privv));
+          set_opts(&mut j, opts, ops, kidv);
           match guard(|| j.set_kty(jwk_type(d))) {
             Err(p) => v.v(format!("Jwk::set_kty|{}", p.key()), p.msg),
             Ok(()) => {
               if let Err(why) = coherent(&j, Some(d)) {
                 v.v("Jwk::set_kty|kty-differs-from-params-family", format!("{entry}: {why}"));
               }
-              // documented: "Removes any previously set params" — no old private value may survive
+              // a key retyped to ANOTHER type must not keep the old private values anywhere (documented: "Removes
+              // any previously set params"); retyping to the same type may be a no-op: recorded
               let s = j.to_json().unwrap_or_default();
-              if s.contains("SECRET") {
-                v.v("Jwk::set_kty|previous-private-parameters-survive", format!("{entry}: {s}"));
+              let survive = leaks(&s);
+              if survive && f != d {
+                v.v("Jwk::set_kty|previous-private-parameters-survive", format!("{entry}: {}", clip(&s)));
               }
-              v.outcome = format!("api:{name}:{}", if f == d { "same-type" } else { "other-type" });
+              v.outcome = format!("api:{name}:{}", if f != d { "other-type" } else if survive { "same-type:private-values-kept(recorded)" } else { "same-type" });
             }
           }
         }
@@ -579,10 +1154,12 @@ fn judge(case: &Case) -> Verdict {
           let mut j = Jwk::new(jwk_type(d));
           let r = guard(|| {
             if path == 4 {
-              *j.params_mut() = params_of(f, privs)
+              *j.params_mut() = params_of(f, privs, pubv, privv)
             } else {
-              j.set_params_unchecked(params_of(f, privs))
+              j.set_params_unchecked(params_of(f, privs, pubv, privv))
             }
+            // the observers must not panic on such a key either way; results recorded only
+            let _ = (j.is_public(), j.is_private(), j.thumbprint_sha256_b64(), j.to_public().map(|p| p.is_public()));
           });
           v.outcome = match r {
             Err(_) => format!("api:{name}:panic(recorded-only)"),
@@ -591,62 +1168,184 @@ fn judge(case: &Case) -> Verdict {
         }
       }
     }
-    Case::Method { ctor, fam, privs } => {
+    Case::Set { keys } => {
+      let n = keys.len();
+      let text = format!("{{\"keys\":[{}]}}", keys.iter().map(|k| set_key_text(*k)).collect::<Vec<_>>().join(","));
+      let any_mismatch = keys.iter().any(|k| *k == 7 || *k == 8);
+      let set = match guard(|| JwkSet::from_json(&text)) {
+        Err(p) => {
+          v.v(format!("JwkSet::from_json|{}", p.key()), p.msg);
+          v.outcome = "set:panic".into();
+          return v;
+        }
+        Ok(Err(_)) => {
+          v.outcome = format!("set:rejected:{}", if any_mismatch { "has-mismatching-key" } else { "all-keys-coherent(recorded)" });
+          return v;
+        }
+        Ok(Ok(s)) => s,
+      };
+      v.nontrivial = true;
+      v.outcome = format!("set:accepted:{}", if set.len() == n { "all-keys" } else { "fewer-keys(recorded)" });
+      let entry = format!("JwkSet {keys:?}");
+      // every key of the set, however it is reached
+      let mut reached: Vec<(String, Jwk)> = Vec::new();
+      let r = guard(|| {
+        let mut out: Vec<(String, Jwk)> = Vec::new();
+        for (i, k) in set.iter().enumerate() {
+          out.push((format!("iter[{i}]"), k.clone()));
+        }
+        for i in 0..set.len() {
+          out.push((format!("index[{i}]"), set[i].clone()));
+        }
+        for (i, k) in set.as_slice().iter().enumerate() {
+          out.push((format!("as_slice[{i}]"), k.clone()));
+        }
+        for kv in 0..N_KIDS {
+          for (i, k) in set.get(&kid_value(kv)).into_iter().enumerate() {
+            out.push((format!("get(kid {kv})[{i}]"), k.clone()));
+          }
+        }
+        let mut copy = set.clone();
+        while let Some(k) = copy.pop() {
+          out.push(("pop".to_string(), k));
+        }
+        let rebuilt: JwkSet = set.iter().cloned().collect();
+        let mut added = JwkSet::new();
+        for k in rebuilt.iter() {
+          added.add(k.clone());
+        }
+        if !added.is_empty() {
+          added.del(0);
+        }
+        for (i, k) in added.iter().enumerate() {
+          out.push((format!("collect+add+del(0)[{i}]"), k.clone()));
+        }
+        out
+      });
+      match r {
+        Ok(out) => reached = out,
+        Err(p) => v.v(format!("JwkSet::accessors|{}", p.key()), p.msg),
+      }
+      for (how, k) in &reached {
+        if let Err(why) = coherent(k, None) {
+          v.v("JwkSet::from_json|accepted|kty-differs-from-params-family", format!("{entry} {how}: {why}"));
+        }
+      }
+      // position-wise oracles when every key arrived (a lenient reader may drop keys: recorded above)
+      if set.len() == n {
+        for (i, k) in set.iter().enumerate() {
+          let (t, extra, _) = SET_MENU[keys[i] as usize];
+          if coherent(k, Some(t)).is_ok() && keys[i] != 7 && keys[i] != 8 {
+            let x = Expect { t, pubv: 0, privv: 0, thumb: true, given_private: Some(t == OCT || !extra.is_empty()) };
+            let before = v.outcome.len();
+            judge_jwk(&format!("{entry}[{i}]"), k, &x, &mut v);
+            v.outcome.truncate(before);
+          }
+        }
+      }
+      // get(kid): matching semantics recorded only
+      let exact = (0..N_KIDS).all(|kv| {
+        let kid = kid_value(kv);
+        let got = set.get(&kid);
+        got.iter().all(|k| k.kid() == Some(kid.as_str())) && got.len() == set.iter().filter(|k| k.kid() == Some(kid.as_str())).count()
+      });
+      v.outcome += if exact { "/get=exactly-the-keys-with-that-kid" } else { "/get-differs(recorded)" };
+      // the serialised set re-parses to coherent keys; the set of public projections carries no private member
+      if let Ok(Ok(s)) = guard(|| set.to_json()) {
+        match guard(|| JwkSet::from_json(&s)) {
+          Ok(Ok(back)) => {
+            for k in back.iter() {
+              if let Err(why) = coherent(k, None) {
+                v.v("JwkSet::from_json|accepted|kty-differs-from-params-family", format!("{entry}, re-parse of own output: {why}"));
+              }
+            }
+          }
+          Ok(Err(_)) => v.outcome += "/own-output-rejected(recorded)",
+          Err(p) => v.v(format!("JwkSet::from_json|{}", p.key()), p.msg),
+        }
+      }
+      match guard(|| set.iter().filter_map(|k| k.to_public()).collect::<JwkSet>().to_json()) {
+        Err(p) => v.v(format!("JwkSet::to_json|{}", p.key()), p.msg),
+        Ok(Err(e)) => v.v("JwkSet::to_json|failed", e.to_string()),
+        Ok(Ok(s)) => {
+          let (names, _) = scan(&serde_json::from_str(&s).unwrap_or(Value::Null));
+          if !names.is_empty() || leaks(&s) {
+            v.v("JwkSet::to_json|public-projections-carry-private-material", format!("{entry}: private members {names:?} in {}", clip(&s)));
+          }
+        }
+      }
+    }
+    &Case::Method { ctor, fam, privs, privv, mtype, kidv } => {
       let f = fam as usize;
       let name = CTORS[ctor as usize];
-      let entry = format!("{name} on {} key, private subset {privs:#b}", KTY[f]);
+      let entry = format!("{name} on {} key, private subset {privs:#b} (values {privv}), method type {}, kid {kidv}", KTY[f], method_type(mtype));
       v.nontrivial = true;
-      let mut jwk = Jwk::from_params(params_of(f, privs));
-      jwk.set_kid("key-1");
+      let mut jwk = Jwk::from_params(params_of(f, privs, 0, privv));
+      jwk.set_kid(kid_value(kidv));
       let did = CoreDID::parse("did:example:123").unwrap();
-      let r: Result<Result<VerificationMethod, String>, vx::Panicked> = guard(|| match ctor {
-        0 => VerificationMethod::new_from_jwk(did.clone(), jwk.clone(), Some("frag")).map_err(|e| e.to_string()),
-        1 => VerificationMethod::new_from_jwk(did.clone(), jwk.clone(), None).map_err(|e| e.to_string()),
-        2 => MethodBuilder::default()
-          .id(DIDUrl::parse("did:example:123#frag").unwrap())
-          .controller(did.clone())
-          .type_(MethodType::JSON_WEB_KEY_2020)
-          .data(MethodData::PublicKeyJwk(jwk.clone()))
-          .build()
+      let r: Result<Result<String, String>, vx::Panicked> = guard(|| {
+        let m = match ctor {
+          0 => VerificationMethod::new_from_jwk(did.clone(), jwk.clone(), Some("frag")).map_err(|e| e.to_string()),
+          1 => VerificationMethod::new_from_jwk(did.clone(), jwk.clone(), None).map_err(|e| e.to_string()),
+          2 => MethodBuilder::default()
+            .id(DIDUrl::parse("did:example:123#frag").unwrap())
+            .controller(did.clone())
+            .type_(method_type(mtype))
+            .data(MethodData::PublicKeyJwk(jwk.clone()))
+            .build()
+            .map_err(|e| e.to_string()),
+          3 | 4 => {
+            let text = format!("did:jwk:{}", b64url(jwk.to_json().map_err(|e| e.to_string())?.as_bytes()));
+            let d = DIDJwk::parse(&text).map_err(|e| format!("did:jwk parse: {e}"))?;
+            if ctor == 4 {
+              // the whole document is the observed object
+              return CoreDocument::expand_did_jwk(d).map_err(|e| e.to_string()).and_then(|doc| doc.to_json().map_err(|e| e.to_string()));
+            }
+            VerificationMethod::try_from(d).map_err(|e| e.to_string())
+          }
+          _ => VerificationMethod::from_json(&format!(
+            r#"{{"id":"did:example:123#k","controller":"did:example:123","type":"{}","publicKeyJwk":{}}}"#,
+            method_type(mtype),
+            jwk.to_json().map_err(|e| e.to_string())?
+          ))
           .map_err(|e| e.to_string()),
-        _ => {
-          let text = format!("did:jwk:{}", b64url(jwk.to_json().map_err(|e| e.to_string())?.as_bytes()));
-          let d = DIDJwk::parse(&text).map_err(|e| format!("did:jwk parse: {e}"))?;
-          VerificationMethod::try_from(d).map_err(|e| e.to_string())
+        }?;
+        if matches!(m.data(), MethodData::PublicKeyJwk(k) if !k.is_public()) {
+          return Ok(format!("NOT-PUBLIC {}", m.to_json().map_err(|e| e.to_string())?));
         }
+        m.to_json().map_err(|e| e.to_string())
       });
+      let kind = if has_priv(f, privs) { "private-key" } else { "public-key" };
       match r {
         Err(p) => {
           v.v(format!("VerificationMethod::{name}|{}", p.key()), p.msg);
           v.outcome = format!("method:{name}:panic");
         }
         Ok(Err(e)) => {
-          v.outcome = format!(
-            "method:{name}:rejected:{}:{}",
-            if has_priv(f, privs) { "private-key" } else { "public-key" },
-            if e.contains("private") || e.contains("Private") { "as-private-material" } else { "other-reason" }
-          );
+          v.outcome =
+            format!("method:{name}:rejected:{kind}:{}", if e.contains("private") || e.contains("Private") { "as-private-material" } else { "other-reason" });
         }
-        Ok(Ok(m)) => {
-          v.outcome = format!("method:{name}:accepted:{}", if has_priv(f, privs) { "private-key" } else { "public-key" });
-          let text = m.to_json().unwrap_or_default();
-          let val: Value = serde_json::from_str(&text).unwrap_or(Value::Null);
-          let mut names = Vec::new();
-          private_names_deep(&val.get("publicKeyJwk").cloned().unwrap_or(Value::Null), &mut names);
-          names.sort();
-          names.dedup();
-          let not_public = matches!(m.data(), MethodData::PublicKeyJwk(k) if !k.is_public());
-          if !names.is_empty() || text.contains("SECRET") || not_public {
-            // one key per constructor: which members leak is in the description
-            v.v(
-              format!("VerificationMethod::{name}|accepted|private-key-material"),
-              format!("{entry}: private members {names:?} in the method, key.is_public() = {}: {text}", !not_public),
-            );
+        Ok(Ok(text)) => {
+          v.outcome = format!("method:{name}:accepted:{kind}");
+          let not_public = text.starts_with("NOT-PUBLIC ");
+          let body = text.trim_start_matches("NOT-PUBLIC ");
+          let (names, _) = scan(&serde_json::from_str(body).unwrap_or(Value::Null));
+          if !names.is_empty() || leaks(body) || not_public {
+            if ctor == 5 {
+              // deserialisation is not one of the constructors the statement speaks of
+              v.outcome += "(private material, recorded-only)";
+            } else {
+              // one key per constructor: which members leak is in the description
+              v.v(
+                format!("VerificationMethod::{name}|accepted|private-key-material"),
+                format!("{entry}: private members {names:?}, key.is_public() = {}: {}", !not_public, clip(body)),
+              );
+            }
           }
         }
       }
     }
-    Case::Generate { doc, scope, fragment, count } => {
+    &Case::Generate { kind, doc, scope, fragment, count } => {
       v.nontrivial = true;
       let storage: Storage<JwkMemStore, KeyIdMemstore> = Storage::new(JwkMemStore::new(), KeyIdMemstore::new());
       let sc = match scope {
@@ -657,20 +1356,32 @@ fn judge(case: &Case) -> Verdict {
         4 => MethodScope::VerificationRelationship(MethodRelationship::CapabilityDelegation),
         _ => MethodScope::VerificationRelationship(MethodRelationship::CapabilityInvocation),
       };
-      // raw generator output
-      match guard(|| vx::gate::block_on(storage.key_storage().generate(JwkMemStore::ED25519_KEY_TYPE, JwsAlgorithm::EdDSA))) {
+      let (kt, alg) = GEN_KINDS[kind as usize];
+      let key_type = KeyType::new(kt);
+      let alg: JwsAlgorithm = alg.parse().expect("algorithm name");
+      // raw generator output (whether generation succeeds is not the property's business: recorded)
+      let mut raw = "raw-rejected";
+      match guard(|| vx::gate::block_on(storage.key_storage().generate(key_type.clone(), alg))) {
         Err(p) => v.v(format!("JwkMemStore::generate|{}", p.key()), p.msg),
-        Ok(Err(e)) => v.v("JwkMemStore::generate|supported-key-type-rejected", e.to_string()),
+        Ok(Err(_)) => {}
         Ok(Ok(out)) => {
+          raw = "raw-generated";
+          GENERATED_JWKS_SEEN.fetch_add(1, Ordering::Relaxed);
+          let t = type_index(out.jwk.kty());
           let obj = object_of(&out.jwk).unwrap_or_default();
-          let names = private_names(&obj);
+          let mut names = private_names(t, &obj);
+          names.extend(private_fields(out.jwk.params()).iter().map(|s| s.to_string()));
+          let (deep, _) = scan(&out.to_json_value().unwrap_or(Value::Null));
+          names.extend(deep);
+          names.sort();
+          names.dedup();
           if !names.is_empty() || !out.jwk.is_public() {
             v.v(
               "JwkMemStore::generate|output-has-private-key-material",
               format!("JwkGenOutput.jwk has private members {names:?}, is_public() = {}", out.jwk.is_public()),
             );
           }
-          if let Err(why) = coherent(&out.jwk, Some(OKP)) {
+          if let Err(why) = coherent(&out.jwk, None) {
             v.v("JwkMemStore::generate|kty-differs-from-params-family", why);
           }
         }
@@ -684,9 +1395,9 @@ fn judge(case: &Case) -> Verdict {
         let r = guard(|| {
           vx::gate::block_on(async {
             if doc == 0 {
-              core.generate_method(&storage, JwkMemStore::ED25519_KEY_TYPE, JwsAlgorithm::EdDSA, fr, sc).await
+              core.generate_method(&storage, key_type.clone(), alg, fr, sc).await
             } else {
-              iota.generate_method(&storage, JwkMemStore::ED25519_KEY_TYPE, JwsAlgorithm::EdDSA, fr, sc).await
+              iota.generate_method(&storage, key_type.clone(), alg, fr, sc).await
             }
           })
         });
@@ -702,20 +1413,18 @@ fn judge(case: &Case) -> Verdict {
           Ok(Ok(_)) => {}
         }
         let text = if doc == 0 { core.to_json() } else { iota.to_json() }.unwrap_or_default();
-        let val: Value = serde_json::from_str(&text).unwrap_or(Value::Null);
-        let mut names = Vec::new();
-        private_names_deep(&val, &mut names);
-        names.sort();
-        names.dedup();
-        if !names.is_empty() {
-          v.v("generate_method|document-has-private-key-material", format!("private member names {names:?} in the document JSON"));
+        let (names, jwks) = scan(&serde_json::from_str(&text).unwrap_or(Value::Null));
+        if label == "generated" {
+          GENERATED_JWKS_SEEN.fetch_add(jwks, Ordering::Relaxed);
+          if jwks != i as u64 + 1 {
+            label = "generated-but-other-number-of-jwks-in-document(recorded)";
+          }
         }
-        let methods = if doc == 0 { core.methods(None).len() } else { iota.methods(None).len() };
-        if label == "generated" && methods != i as usize + 1 {
-          v.v("generate_method|method-not-in-document", text);
+        if !names.is_empty() {
+          v.v("generate_method|document-has-private-key-material", format!("private member names {names:?} in the JWKs of the document JSON"));
         }
       }
-      v.outcome = format!("generate:{}:{}:{label}", if doc == 0 { "core" } else { "iota" }, sc.as_str());
+      v.outcome = format!("generate:{kt}+{}:{}:{}:{raw}:{label}", alg.name(), if doc == 0 { "core" } else { "iota" }, sc.as_str());
     }
   }
   v
@@ -741,7 +1450,7 @@ fn run_part(ctx: &Ctx, part: &str, cases: &[Case], detail: Value) {
   for i in [0, cases.len() / 3, 2 * cases.len() / 3, cases.len() - 1] {
     ctx.sample(part, &cases[i]);
   }
-  cases.par_chunks(2048).for_each(|chunk| {
+  cases.par_chunks(512).for_each(|chunk| {
     let mut hist: BTreeMap<String, u64> = BTreeMap::new();
     let mut distinct = Vec::new();
     for c in chunk {
@@ -765,57 +1474,26 @@ fn run_part(ctx: &Ctx, part: &str, cases: &[Case], detail: Value) {
   ctx.part(part, json!({"engine": "E1 full product", "cases": n, "detail": detail}));
 }
 
-fn opt_sets(max_present: u32) -> Vec<(u8, u8)> {
-  // (opts, ops): the key_ops menu only multiplies sets that contain key_ops
+/// (opts, ops, kidv): the key_ops / kid menus only multiply sets that contain key_ops / kid
+fn opt_sets(max_present: u32) -> Vec<(u8, u8, u8)> {
   let mut out = Vec::new();
   for opts in 0..=255u8 {
     if opts.count_ones() > max_present {
       continue;
     }
-    if opts & 2 != 0 {
-      for ops in 0..3u8 {
-        out.push((opts, ops));
+    let n_ops = if opts & OPT_KEY_OPS != 0 { OPS_MENU.len() as u8 } else { 1 };
+    let n_kid = if opts & OPT_KID != 0 { N_KIDS } else { 1 };
+    for ops in 0..n_ops {
+      for kidv in 0..n_kid {
+        out.push((opts, ops, kidv));
       }
-    } else {
-      out.push((opts, 0));
     }
   }
   out
 }
-
-fn self_test(ctx: &Ctx) {
-  // the harness's RFC 7638 implementation against the RFCs' own examples (RFC 7638 §3.1, RFC 8037 A.3)
-  let rsa = rfc7638(RSA, &|n| value_of(n, RSA));
-  ctx.require(rsa == "NzbLsXh8uDCcd-6MNwXF4W_7noWXFZAfHkxZsRGC9Xs", &format!("own RFC 7638 thumbprint of the RFC 7638 example key is {rsa}"));
-  let okp = rfc7638(OKP, &|n| value_of(n, OKP));
-  ctx.require(okp == "kPrK_qmxVWaYVA9wwBF6Iuo3vVzz7TxHCTwXBygrS4k", &format!("own RFC 7638 thumbprint of the RFC 8037 example key is {okp}"));
-  ctx.require(b64url(b"\xfb\xff\xfe") == "-__-" && b64url(b"ab") == "YWI" && b64url(b"a") == "YQ", "own base64url encoder");
-}
-
-fn generate(ctx: &Ctx) {
-  ctx.rule("full products: (a) kty(4) x all 8192 subsets of the 13 type-specific JWK members x optional sets x order; (b) 133 well-formed member sets x optional-member subsets x key_ops menu x order; (c) API paths x family x declared x private subsets x optional sets; (d) 4 method constructors x 133 keys; (e) generation: doc type x scope x fragment x count. distinct_nontrivial = distinct cases in which a Jwk / method / document was actually obtained (everything except JSON the parser rejected)");
-  ctx.assume("sha2::Sha256 and serde_json are trusted (the harness's RFC 7638 computation is checked against the RFC 7638 and RFC 8037 example thumbprints at start-up)");
-  ctx.assume("member values are fixed base64url strings (RFC example keys; private values are SECRET_<name>); the library does not interpret them in the code under test");
-  self_test(ctx);
-  let thorough = ctx.thorough();
-
-  // (a) every member subset
-  let mut a = Vec::new();
-  let a_opts: &[u8] = if thorough { &[0, 255, 1, 2, 4, 8, 16, 32, 64, 128] } else { &[0, 255] };
-  for kty in 0..4u8 {
-    for members in 0..(1u16 << 13) {
-      for &opts in a_opts {
-        for order in 0..3u8 {
-          a.push(Case::Json { kty, members, opts, ops: 0, order });
-        }
-      }
-    }
-  }
-  run_part(ctx, "json", &a, json!({"kty": 4, "member_subsets": 8192, "optional_sets": a_opts, "orders": 3}));
-
-  // (b) well-formed member sets x optional members
-  let osets = opt_sets(if thorough { 8 } else { 2 });
-  let mut b = Vec::new();
+/// The 133 well-formed member sets: (kty, members, private subset bits over private_of(kty)).
+fn member_sets() -> Vec<(u8, u16, u8)> {
+  let mut out = Vec::new();
   for kty in 0..4u8 {
     let t = kty as usize;
     let pn = private_of(t);
@@ -826,74 +1504,237 @@ fn generate(ctx: &Ctx) {
           members |= bit(n);
         }
       }
-      for &(opts, ops) in &osets {
-        for order in 0..3u8 {
-          b.push(Case::Json { kty, members, opts, ops, order });
+      out.push((kty, members, sub as u8));
+    }
+  }
+  out
+}
+
+fn self_test(ctx: &Ctx) {
+  // the harness's RFC 7638 implementation against the RFCs' own examples (RFC 7638 §3.1, RFC 8037 A.3)
+  let rsa = rfc7638(RSA, &|n| value_of(n, RSA, 0, 0));
+  ctx.require(rsa == "NzbLsXh8uDCcd-6MNwXF4W_7noWXFZAfHkxZsRGC9Xs", &format!("own RFC 7638 thumbprint of the RFC 7638 example key is {rsa}"));
+  let okp = rfc7638(OKP, &|n| value_of(n, OKP, 0, 0));
+  ctx.require(okp == "kPrK_qmxVWaYVA9wwBF6Iuo3vVzz7TxHCTwXBygrS4k", &format!("own RFC 7638 thumbprint of the RFC 8037 example key is {okp}"));
+  ctx.require(b64url(b"\xfb\xff\xfe") == "-__-" && b64url(b"ab") == "YWI" && b64url(b"a") == "YQ", "own base64url encoder");
+  // the leak detector: sees every private value of every profile, and none of the public ones
+  for t in 0..4usize {
+    for privv in 0..3u8 {
+      for n in priv_names(t) {
+        let val = value_of(n, t, 0, privv).to_string();
+        ctx.require(leaks(&val) == (val.len() > 4), &format!("leak detector on private {n} of {} (profile {privv})", KTY[t]));
+      }
+    }
+    if t != OCT {
+      for pubv in 0..N_PUBV[t] {
+        for n in required(t) {
+          ctx.require(!leaks(&value_of(n, t, pubv, 0).to_string()), &format!("leak detector fires on public {n} of {} (profile {pubv})", KTY[t]));
+        }
+      }
+    }
+    for n in U {
+      if !required(t).contains(&n) && !priv_names(t).contains(&n) {
+        ctx.require(!leaks(&value_of(n, t, 0, 0).to_string()), &format!("leak detector fires on foreign member {n} of {}", KTY[t]));
+      }
+    }
+  }
+  for kv in 0..N_KIDS {
+    ctx.require(!leaks(&kid_value(kv)), "leak detector fires on a kid");
+  }
+}
+
+fn generate(ctx: &Ctx) {
+  ctx.rule("full products: (a) kty(4) x all 8192 subsets of the 13 type-specific JWK members x optional sets x order x way of deserialisation; (b) 133 well-formed member sets x optional-member subsets x key_ops menu x kid menu x order; (c) 133 member sets x public value profiles x private value profiles x {none, kid} x order x {from_json, from_params}; (d) edge shapes x kty x way; (e) API paths x family x declared x private subsets x optional sets; (f) JwkSet documents: all sequences over the key menu; (g) method constructors x 133 keys x private value profile x method type / kid menu; (h) generation: key type/alg x doc type x scope x fragment x count. distinct_nontrivial = distinct cases in which a Jwk / set / method / document was actually obtained (everything except JSON the parser rejected)");
+  ctx.assume("sha2::Sha256 and serde_json are trusted (the harness's RFC 7638 computation is checked against the RFC 7638 and RFC 8037 example thumbprints at start-up)");
+  ctx.assume("baseline member values are the RFC 7517 / 7638 / 8037 example keys; the other value profiles are base64url filler the library is not required to accept (acceptance recorded, not judged)");
+  ctx.assume("a private member is present when its field in params() is Some(..) or its name is serialised, whatever its value (empty string, empty `oth`)");
+  self_test(ctx);
+  let thorough = ctx.thorough();
+
+  // (a) every member subset
+  let mut a = Vec::new();
+  let all_opts: &[u8] = &[0, 255, 1, 2, 4, 8, 16, 32, 64, 128];
+  for via in 0..VIAS.len() as u8 {
+    let a_opts: &[u8] = match (thorough, via) {
+      (true, _) => all_opts,
+      (false, 0) => &[0, 255],
+      _ => &[0],
+    };
+    for kty in 0..4u8 {
+      for members in 0..(1u16 << 13) {
+        for &opts in a_opts {
+          for order in 0..3u8 {
+            a.push(Case::Json { kty, members, opts, ops: 0, kidv: 0, order, via, pubv: 0, privv: 0 });
+          }
         }
       }
     }
   }
-  run_part(ctx, "json-optional", &b, json!({"member_sets": 133, "optional_sets_x_key_ops": osets.len(), "orders": 3}));
+  run_part(ctx, "json", &a, json!({"kty": 4, "member_subsets": 8192, "ways": VIAS, "optional_sets": if thorough { "10 (every way)" } else { "2 (from_json), 1 (others)" }, "orders": 3}));
+  drop(a);
 
-  // (c) API paths
-  let c_osets = opt_sets(if thorough { 8 } else { 2 });
+  // (b) well-formed member sets x optional members
+  let sets = member_sets();
+  let osets = opt_sets(if thorough { 8 } else { 2 });
+  let mut b = Vec::new();
+  for &(kty, members, _) in &sets {
+    for &(opts, ops, kidv) in &osets {
+      for order in 0..3u8 {
+        b.push(Case::Json { kty, members, opts, ops, kidv, order, via: 0, pubv: 0, privv: 0 });
+      }
+    }
+  }
+  run_part(ctx, "json-optional", &b, json!({"member_sets": sets.len(), "optional_sets_x_key_ops_x_kid": osets.len(), "orders": 3}));
+  drop(b);
+
+  // (c) value profiles
   let mut c = Vec::new();
+  for &(kty, members, privs) in &sets {
+    for pubv in 0..N_PUBV[kty as usize] {
+      for privv in 0..3u8 {
+        if privv != 0 && privs == 0 {
+          continue; // no private member whose value could differ (oct: k is covered by pubv)
+        }
+        for (opts, kidv) in [(0u8, 0u8), (OPT_KID, 3)] {
+          for order in 0..3u8 {
+            for via in if thorough { 0..VIAS.len() as u8 } else { 0..1 } {
+              c.push(Case::Json { kty, members, opts, ops: 0, kidv, order, via, pubv, privv });
+            }
+          }
+          for path in [0u8, 6] {
+            c.push(Case::Api { path, fam: kty, declared: kty, privs, opts, ops: 0, kidv, pubv, privv });
+          }
+        }
+      }
+    }
+  }
+  run_part(ctx, "values", &c, json!({"public_value_profiles": N_PUBV, "private_value_profiles": 3, "member_sets": sets.len()}));
+  drop(c);
+
+  // (d) edge shapes
+  let mut d = Vec::new();
+  for kty in 0..4u8 {
+    for shape in 0..EDGES.len() as u8 {
+      for via in 0..VIAS.len() as u8 {
+        d.push(Case::Edge { kty, shape, via });
+      }
+    }
+  }
+  run_part(ctx, "json-edge", &d, json!({"shapes": EDGES, "ways": VIAS}));
+
+  // (e) API paths
+  let e_osets = opt_sets(if thorough { 8 } else { 2 });
+  let mut e = Vec::new();
   for fam in 0..4u8 {
     for privs in 0..n_privs(fam as usize) as u8 {
       for path in [0u8, 3, 6] {
-        for &(opts, ops) in &c_osets {
-          c.push(Case::Api { path, fam, declared: fam, privs, opts, ops });
+        for &(opts, ops, kidv) in &e_osets {
+          e.push(Case::Api { path, fam, declared: fam, privs, opts, ops, kidv, pubv: 0, privv: 0 });
         }
       }
       for declared in 0..4u8 {
         for path in [1u8, 4, 5] {
-          c.push(Case::Api { path, fam, declared, privs, opts: 0, ops: 0 });
+          for privv in 0..3u8 {
+            e.push(Case::Api { path, fam, declared, privs, opts: 0, ops: 0, kidv: 0, pubv: 0, privv });
+          }
         }
         for opts in [0u8, 255] {
-          c.push(Case::Api { path: 2, fam, declared, privs, opts, ops: 0 });
+          e.push(Case::Api { path: 2, fam, declared, privs, opts, ops: 0, kidv: 0, pubv: 0, privv: 0 });
+        }
+      }
+    }
+    // 7: any family retyped to `declared`, then given every private subset of the new type
+    for declared in 0..4u8 {
+      for privs in 0..n_privs(declared as usize) as u8 {
+        for opts in [0u8, 255] {
+          e.push(Case::Api { path: 7, fam, declared, privs, opts, ops: 0, kidv: 0, pubv: 0, privv: 0 });
         }
       }
     }
   }
-  run_part(ctx, "api", &c, json!({"paths": PATHS, "optional_sets_x_key_ops": c_osets.len()}));
+  run_part(ctx, "api", &e, json!({"paths": PATHS, "optional_sets_x_key_ops_x_kid": e_osets.len()}));
+  drop(e);
 
-  // (d) verification method constructors
-  let mut d = Vec::new();
+  // (f) JwkSet documents
+  let max_len = if thorough { 5 } else { 3 };
+  let mut f: Vec<Case> = vec![Case::Set { keys: vec![] }];
+  let mut layer: Vec<Vec<u8>> = vec![vec![]];
+  for _ in 0..max_len {
+    let mut next = Vec::new();
+    for s in &layer {
+      for k in 0..SET_MENU.len() as u8 {
+        let mut s2 = s.clone();
+        s2.push(k);
+        f.push(Case::Set { keys: s2.clone() });
+        next.push(s2);
+      }
+    }
+    layer = next;
+  }
+  run_part(ctx, "set", &f, json!({"key_menu": SET_MENU.len(), "max_keys": max_len}));
+
+  // (g) verification method constructors
+  let mut g = Vec::new();
   for fam in 0..4u8 {
     for privs in 0..n_privs(fam as usize) as u8 {
-      for ctor in 0..4u8 {
-        d.push(Case::Method { ctor, fam, privs });
+      for privv in 0..3u8 {
+        if privv != 0 && privs == 0 {
+          continue;
+        }
+        for ctor in 0..CTORS.len() as u8 {
+          match ctor {
+            1 => (0..N_KIDS).for_each(|kidv| g.push(Case::Method { ctor, fam, privs, privv, mtype: 0, kidv })),
+            2 | 5 => (0..N_MTYPES).for_each(|mtype| g.push(Case::Method { ctor, fam, privs, privv, mtype, kidv: 0 })),
+            _ => g.push(Case::Method { ctor, fam, privs, privv, mtype: 0, kidv: 0 }),
+          }
+        }
       }
     }
   }
-  run_part(ctx, "method", &d, json!({"constructors": CTORS, "keys": 133}));
+  run_part(ctx, "method", &g, json!({"constructors": CTORS, "keys": 133, "private_value_profiles": 3, "method_types": N_MTYPES, "kids": N_KIDS}));
 
-  // (e) generation (random key material: only names/structure are judged)
-  let mut e = Vec::new();
-  for doc in 0..2u8 {
-    for scope in 0..6u8 {
-      for fragment in [true, false] {
-        for count in 1..=(if thorough { 4u8 } else { 2 }) {
-          e.push(Case::Generate { doc, scope, fragment, count });
+  // (h) generation (random key material: only names/structure are judged)
+  let mut h = Vec::new();
+  for kind in 0..GEN_KINDS.len() as u8 {
+    for doc in 0..2u8 {
+      for scope in 0..6u8 {
+        for fragment in [true, false] {
+          for count in 1..=(if thorough { 4u8 } else { 2 }) {
+            if kind != 0 && (count > 1 || scope > 1) {
+              continue; // the unsupported pairs: one attempt per document type / fragment / {method, authentication}
+            }
+            h.push(Case::Generate { kind, doc, scope, fragment, count });
+          }
         }
       }
     }
   }
   // sequential evaluation through `eval` (few cases, async store)
-  for c in &e {
+  for c in &h {
     eval(ctx, c);
   }
-  ctx.sample("generate", &e[0]);
-  ctx.add_states(e.len() as u64);
-  ctx.add_transitions(e.len() as u64);
-  ctx.add_traces(e.len() as u64);
-  ctx.part("generate", json!({"cases": e.len()}));
+  ctx.sample("generate", &h[0]);
+  ctx.add_states(h.len() as u64);
+  ctx.add_transitions(h.len() as u64);
+  ctx.add_traces(h.len() as u64);
+  ctx.part("generate", json!({"cases": h.len(), "key_type_alg_pairs": GEN_KINDS}));
+
+  // vacuity guards of the oracles themselves
+  ctx.require(PRIVATE_ARRIVED.load(Ordering::Relaxed) > 1000, "vacuous: (almost) no key kept the private members it was given");
+  ctx.require(PROJECTIONS.load(Ordering::Relaxed) > 1000, "vacuous: (almost) no public projection was obtained");
+  ctx.require(GENERATED_JWKS_SEEN.load(Ordering::Relaxed) > 0, "vacuous: no generated key / no JWK in any generated document was seen");
 
   ctx.bound("member_subsets", "all 2^13 per declared kty");
   ctx.bound("rsa_private_subsets", 128);
   ctx.bound("optional_members_present", if thorough { "all 256 subsets" } else { "<= 2 of 8 (37 subsets)" });
   ctx.bound("member_orders", ["sorted", "reversed", "rotated"]);
   ctx.bound("key_ops_menu", OPS_MENU);
+  ctx.bound("kid_menu", ["key-1", "", "#key-1", "unicode+quote+backslash", "300 x k"]);
+  ctx.bound("ways_of_deserialisation", VIAS);
+  ctx.bound("public_value_profiles", json!({"EC": "P-256 RFC key, P-384, P-521, secp256k1, BLS12381G1/G2, BLS48581G1/G2, empty crv, empty x+y, 4096-char x, 4096-char y, unknown crv, escape-needing crv (recorded)", "RSA": "RFC key, e=Aw, empty n+e, 4096-char n, 4096-char e, escape-needing e (recorded)", "oct": "RFC A.3 keys (2), empty k, 4096-char k, escape-needing k (recorded)", "OKP": "Ed25519 RFC key, Ed448, X25519, X448, empty crv, empty x, 4096-char x, unknown crv, escape-needing crv (recorded)"}));
+  ctx.bound("private_value_profiles", ["RFC example values (+1 oth prime)", "present but empty (\"\", oth [])", "4096 characters (EC/OKP d) / 2 oth primes (RSA)"]);
+  ctx.bound("jwk_set_keys", max_len);
+  ctx.bound("generated_methods_per_document", if thorough { 4 } else { 2 });
 }
 
 fn main() {
